@@ -1318,6 +1318,1253 @@ Proof.
 Qed.
 Transparent alloc.
 
+(* ------------------------------------------------------------------ statements *)
+Definition StInv (st : mstate) : Prop := Inv (mheap st) (handles_list (roots st)).
+Definition Sim (st : mstate) (sg : state) : Prop := repr_list (mheap st) (roots st) sg.
+
+Lemma repr_list_as_inst h rs sg : repr_list h rs sg <-> repr h (HInst 0 rs) (VInst 0 sg).
+Proof. split; intro H; [constructor; auto | inversion H; auto]. Qed.
+
+(* take the content of variable x out of the roots: the rest of the roots is the frame *)
+Lemma roots_split x rs cur :
+  nth_error rs x = Some cur ->
+  forall l, occ l (handles_list rs) = occ l (handles cur) + occ l (handles_list (set_root rs x HNull)).
+Proof.
+  intros Hx l. pose proof (occ_list_set_field l rs x HNull cur Hx). rewrite handles_null in H.
+  unfold set_root. revert H. occ_tac.
+Qed.
+
+Lemma roots_put x rs cur cur' :
+  nth_error rs x = Some cur ->
+  forall l, occ l (handles_list (set_root rs x cur')) = occ l (handles cur') + occ l (handles_list (set_root rs x HNull)).
+Proof.
+  intros Hx l. pose proof (occ_list_set_field l rs x HNull cur Hx). pose proof (occ_list_set_field l rs x cur' cur Hx).
+  rewrite handles_null in H. unfold set_root. revert H H0. occ_tac.
+Qed.
+
+Lemma m_assign_to_ok h rs sg every x p w tw st' ok :
+  noslice p = true ->
+  Inv h (handles w ++ handles_list rs) -> repr_list h rs sg -> repr h w tw ->
+  m_assign_to (mkst h rs) every x p w = (st', ok) ->
+  exists sg', assign_to sg every x p tw = (sg', ok) /\ StInv st' /\ Sim st' sg'.
+Proof.
+  intros NS I Hrs Hw E. unfold m_assign_to in E. simpl in E. unfold assign_to.
+  destruct (nth_error rs x) as [cur|] eqn:Ex.
+  - destruct (repr_list_nth _ _ _ _ _ Hrs Ex) as [tcur [Htc Hcur]]. rewrite Htc.
+    destruct (m_set every p (Some w) h cur) as [[h1 cur'] ok1] eqn:ES. inversion E; subst; clear E.
+    set (others := handles_list (set_root rs x HNull)).
+    assert (I0 : Inv h ((handles cur ++ handles_opt (Some w)) ++ others)).
+    { eapply Inv_equiv; [|exact I]. intro l. pose proof (roots_split x rs cur Ex l). simpl. fold others in H. revert H. occ_tac. }
+    destruct (m_set_ok every p NS (Some w) (Some tw) h cur tcur others h1 cur' ok I0 Hcur (RO_some _ _ _ Hw) ES)
+      as [t' [Ev [Hr' S]]].
+    rewrite Ev. eexists; split; [reflexivity|]. split.
+    + unfold StInv. simpl. eapply Inv_equiv; [|apply (st_inv _ _ _ _ _ S)].
+      intro l. pose proof (roots_put x rs cur cur' Ex l). fold others in H. revert H. occ_tac.
+    + unfold Sim. simpl.
+      assert (Ho : repr h (HInst 0 (set_root rs x HNull)) (VInst 0 (set_field x VNull sg))).
+      { constructor. apply repr_list_set_field; auto. constructor. }
+      apply (st_frame _ _ _ _ _ S) in Ho; [|rewrite handles_inst; apply incl_refl].
+      inversion Ho; subst.
+      match goal with H : repr_list h1 _ _ |- _ => pose proof (repr_list_set_field _ _ _ x _ _ H Hr') as Hx end.
+      unfold set_root in Hx. rewrite hset_field_twice, set_field_twice in Hx. exact Hx.
+  - inversion E; subst; clear E. rewrite (repr_list_nth_none _ _ _ _ Hrs Ex).
+    destruct (drop_val_keep h w (handles_list rs) [] ) as [S K].
+    { rewrite app_nil_r. auto. }
+    eexists; split; [reflexivity|]. split.
+    + unfold StInv. simpl. pose proof (st_inv _ _ _ _ _ S) as I1. rewrite app_nil_r in I1. auto.
+    + unfold Sim. simpl. apply repr_list_as_inst. apply K.
+      * rewrite handles_inst, app_nil_r. apply incl_refl.
+      * apply repr_list_as_inst. auto.
+Qed.
+
+(* ------------------------------------------------------------------ modify_existing_index: pop / remove / consume *)
+(* what a slot function (and modify_existing_index around it) must do: *)
+Definition mod_post (h : heap) (cur : hval) (G : list loc) (tres : val * option val)
+                    (h' : heap) (cur' : hval) (r : option hval) : Prop :=
+  repr h' cur' (fst tres) /\
+  match r, snd tres with
+  | Some res, Some tr => repr h' res tr /\ Step h (handles cur) G h' (handles res ++ handles cur')
+  | None, None => Step h (handles cur) G h' (handles cur')
+  | _, _ => False
+  end.
+
+Definition mod_spec (f : heap -> hval -> mres) (tf : val -> val * option val) : Prop :=
+  forall h cur t G h' cur' r,
+  Inv h (handles cur ++ G) -> repr h cur t -> f h cur = (h', cur', r) -> mod_post h cur G (tf t) h' cur' r.
+
+Lemma mod_fail h cur t G : Inv h (handles cur ++ G) -> repr h cur t -> mod_post h cur G (t, None) h cur None.
+Proof. intros I Hr. split; auto. simpl. apply Step_refl; auto. Qed.
+
+Lemma mod_fail_mm h l d t G h1 l' :
+  Inv h (handles (HRef l d) ++ G) -> repr h (HRef l d) t -> make_mut h l = (h1, l') ->
+  mod_post h (HRef l d) G (t, None) h1 (HRef l' d) None.
+Proof.
+  intros I Hr MM. rewrite handles_ref in I.
+  destruct (make_mut_facts h _ G l d _ h1 l' I Hr MM) as [c0 [c1 [Hc0 [Hc1 [K1 [I1 [C1 [Inv1 [S1 [Hr1 B1]]]]]]]]]].
+  split; auto.
+Qed.
+
+Lemma cnt_of_incr_neq h l m : l <> m -> cnt_of (incr h l) m = cnt_of h m.
+Proof. intro N. unfold incr. destruct (get_cell h l); auto. apply cnt_of_set_neq; auto. Qed.
+
+Lemma cnt_of_clone_locs_notin ls : forall h m, ~ In m ls -> cnt_of (clone_locs h ls) m = cnt_of h m.
+Proof.
+  induction ls as [|a ls IH]; intros h m N; simpl; auto.
+  rewrite IH; [|intro; apply N; right; auto]. apply cnt_of_incr_neq. intro; subst; apply N; left; auto.
+Qed.
+
+(* a missing key of a dict with a default: insert a copy of the default, hand it to the recursion *)
+Lemma default_open h l dv0 c its dt G h1 l' k :
+  Inv h ((l :: handles dv0) ++ G) ->
+  repr h (HRef l (Some dv0)) (VSeq (ckind c) its (Some dt)) ->
+  get_cell h l = Some c -> make_mut h l = (h1, l') ->
+  let h3 := set_items (clone_val h1 dv0) l' (citems c ++ [(k, HNull)]) in
+  repr h3 dv0 dt /\
+  repr h3 (HRef l' (Some dv0)) (VSeq (ckind c) (its ++ [(k, VNull)]) (Some dt)) /\
+  cnt_of h3 l' = 1 /\
+  Step h (l :: handles dv0) G h3 (handles dv0 ++ l' :: handles dv0).
+Proof.
+  intros I Hr Hc MM h3.
+  change (handles dv0) with (handles_opt (Some dv0)) in I.
+  destruct (make_mut_facts h _ G l (Some dv0) _ h1 l' I Hr MM) as [c0 [c1 [Hc0 [Hc1 [K1 [I1 [C1 [Inv1 [S1 [Hr1 B1]]]]]]]]]].
+  rewrite Hc in Hc0. inversion Hc0; subst c0. clear Hc0. simpl handles_opt in *.
+  destruct (owned_unique _ _ _ _ _ Inv1 Hc1 C1) as [U1 [U2 U3]].
+  destruct (clone_val_step h1 (l' :: handles dv0) G dv0 Inv1) as [S2 [B2 L2]].
+  { apply incl_appl. apply incl_tl. apply incl_refl. }
+  set (h2 := clone_val h1 dv0) in *.
+  destruct (B2 l' c1 Hc1) as [c2 [Hc2 [K2 I2]]].
+  assert (C2 : cnt c2 = 1).
+  { assert (cnt_of h2 l' = cnt_of h1 l').
+    { unfold h2, clone_val. apply cnt_of_clone_locs_notin. apply occ_notIn; auto. }
+    unfold cnt_of in H. rewrite Hc2, Hc1 in H. lia. }
+  assert (Inv2 : Inv h2 ((l' :: handles dv0 ++ handles dv0) ++ G)).
+  { eapply Inv_equiv; [|apply S2]. occ_tac. }
+  destruct (inplace_update h2 l' c2 (handles dv0 ++ handles dv0) (handles dv0 ++ handles dv0)
+              (citems c ++ [(k, HNull)]) G Inv2 Hc2 C2) as [S3 [Hc3 [T1 [T2 [T3 [N1 [W1 W2]]]]]]].
+  { intro x. rewrite I2, I1, handles_items_app, handles_items_single, handles_null. occ_tac. }
+  fold h3 in S3, Hc3, T1, T2, T3.
+  destruct (repr_ref_inv _ _ _ _ _ _ Hr1) as [c1' [Hc1' [_ [Hits1 Hd1]]]].
+  rewrite Hc1 in Hc1'. inversion Hc1'; subst c1'. clear Hc1'.
+  inversion Hd1; subst.
+  assert (Ndv : ~ In l' (handles dv0)) by (apply occ_notIn; auto).
+  split; [|split; [|split]].
+  - apply T1; auto. eapply repr_ext; eauto.
+  - rewrite <- K1, <- K2. change (ckind c2) with (ckind (mkcell 1 (ckind c2) (citems c ++ [(k, HNull)]))).
+    apply R_ref; auto.
+    + simpl. apply repr_items_app.
+      * apply T2. { rewrite <- I1, <- I2. exact N1. } eapply repr_items_ext; [exact B2|]. rewrite <- I1. exact Hits1.
+      * constructor; constructor.
+    + constructor. apply T1; auto. eapply repr_ext; eauto.
+  - unfold cnt_of. rewrite Hc3. reflexivity.
+  - eapply Step_trans; [exact S1|]. eapply Step_trans; [exact S2|].
+    eapply Step_equiv; [| |exact S3]. apply in_occ_equiv; occ_tac. occ_tac.
+Qed.
+
+Lemma nth_item_app_last {A} (its : list (key * A)) k a : nth_item (length its) (its ++ [(k, a)]) = Some a.
+Proof. unfold nth_item. rewrite nth_error_app2; [|lia]. rewrite Nat.sub_diag. reflexivity. Qed.
+
+Lemma set_nth_app_last {A} (its : list (key * A)) k a b : set_nth (length its) b (its ++ [(k, a)]) = its ++ [(k, b)].
+Proof. induction its as [|[k0 x] its IH]; simpl; auto. rewrite IH. reflexivity. Qed.
+
+Lemma m_modify_ok p : forall f tf, mod_spec f tf -> mod_spec (m_modify p f) (v_modify p tf).
+Proof.
+  induction p as [|pe rest IH]; intros f tf Hf.
+  - simpl. exact Hf.
+  - specialize (IH f tf Hf).
+    intros h cur t G h' cur' r I Hr E.
+    destruct cur as [| z | l d | sid fields].
+    + simpl in E. inversion E; subst. inversion Hr; subst. simpl. apply mod_fail; auto.
+    + simpl in E. inversion E; subst. inversion Hr; subst. simpl. apply mod_fail; auto.
+    + destruct (repr_ref_inv_gen _ _ _ _ Hr) as [c [its [dv [Ht [Hc [Hits Hd]]]]]]. subst t.
+      pose proof (repr_items_length _ _ _ Hits) as Hlen.
+      simpl in E. rewrite Hc in E.
+      (* the common recursive step *)
+      assert (DESC : forall n e h1 l', nth_item n (citems c) = Some e -> make_mut h l = (h1, l') ->
+                (let h2 := put_item h1 l' n HNull in
+                 let '(h3, e', r) := m_modify rest f h2 e in (put_item h3 l' n e', HRef l' d, r)) = (h', cur', r) ->
+                exists te, nth_item n its = Some te /\
+                  mod_post h (HRef l d) G
+                    (let (e', r) := v_modify rest tf te in (VSeq (ckind c) (set_nth n e' its) dv, r)) h' cur' r).
+      { intros n e h1 l' Hne MM E1. cbv zeta in E1.
+        destruct (m_modify rest f (put_item h1 l' n HNull) e) as [[h3 e'] r1] eqn:ER. inversion E1; subst; clear E1.
+        rewrite handles_ref in I.
+        destruct (descend_open h l d c (ckind c) its dv n e G h1 l' I Hr Hc Hne MM)
+          as [te [Hte [_ [Hre [Hr2 [C2 [Sopen _]]]]]]].
+        set (h2 := put_item h1 l' n HNull) in *.
+        assert (I2 : Inv h2 (handles e ++ l' :: handles_opt d ++ G)).
+        { eapply Inv_equiv; [|apply (st_inv _ _ _ _ _ Sopen)]. occ_tac. }
+        pose proof (IH h2 e te (l' :: handles_opt d ++ G) h3 e' r I2 Hre ER) as [Hre' Hres].
+        exists te. split; auto.
+        destruct (v_modify rest tf te) as [te' tr] eqn:EV. simpl in Hre', Hres.
+        assert (Hn0 : nth_item n (set_nth n VNull its) = Some VNull) by (eapply nth_item_set_nth; eauto).
+        destruct r as [res|]; destruct tr as [tres|]; try contradiction.
+        - destruct Hres as [Hrres Srec].
+          destruct (descend_close h2 (handles e) l' d G h3 (handles res) (ckind c) (set_nth n VNull its) dv n e' te')
+            as [Hr4 [Sclose K4]]; auto.
+          { eapply Step_equiv; [| |exact Srec]. intro; tauto. occ_tac. }
+          rewrite set_nth_set_nth in Hr4.
+          split; [exact Hr4|]. simpl. split.
+          + apply K4; auto. apply incl_appl, incl_refl.
+          + rewrite !handles_ref.
+            assert (Srec2 : Step h2 (handles e) ((l' :: handles_opt d) ++ G) h3 (handles res ++ handles e')) by exact Srec.
+            apply Step_frame in Srec2.
+            eapply Step_trans; [exact Sopen|]. eapply Step_trans; [exact Srec2|].
+            eapply Step_equiv; [| |exact Sclose]. apply in_occ_equiv; occ_tac. occ_tac.
+        - rename Hres into Srec.
+          destruct (descend_close h2 (handles e) l' d G h3 [] (ckind c) (set_nth n VNull its) dv n e' te')
+            as [Hr4 [Sclose K4]]; auto.
+          { rewrite app_nil_r. exact Srec. }
+          rewrite set_nth_set_nth in Hr4. rewrite !app_nil_r in Sclose.
+          split; [exact Hr4|]. simpl. rewrite !handles_ref.
+          assert (Srec2 : Step h2 (handles e) ((l' :: handles_opt d) ++ G) h3 (handles e')) by exact Srec.
+          apply Step_frame in Srec2.
+          eapply Step_trans; [exact Sopen|]. eapply Step_trans; [exact Srec2|].
+          eapply Step_equiv; [| |exact Sclose]. apply in_occ_equiv; occ_tac. occ_tac. }
+      destruct (ckind c) eqn:K.
+      * (* list *)
+        destruct pe as [z | bs | sid' f0 | lo hi].
+        -- destruct (make_mut h l) as [h1 l'] eqn:MM. simpl. rewrite <- Hlen.
+           destruct (norm_index (length (citems c)) z) as [n|] eqn:NI.
+           2: { inversion E; subst. eapply mod_fail_mm; eauto. }
+           destruct (nth_item n (citems c)) as [e|] eqn:Ne.
+           2: { inversion E; subst. rewrite (repr_items_nth_none _ _ _ _ Hits Ne). eapply mod_fail_mm; eauto. }
+           destruct (DESC n e h1 l' Ne eq_refl E) as [te [Hte HP]]. rewrite Hte. exact HP.
+        -- destruct (make_mut h l) as [h1 l'] eqn:MM. inversion E; subst. simpl. eapply mod_fail_mm; eauto.
+        -- destruct (make_mut h l) as [h1 l'] eqn:MM. inversion E; subst. simpl. eapply mod_fail_mm; eauto.
+        -- inversion E; subst. simpl. apply mod_fail; auto.
+      * (* dict *)
+        assert (VM : v_modify (pe :: rest) tf (VSeq KDict its dv) =
+                     match key_of_pelem pe with
+                     | Some k =>
+                       match find_key k its with
+                       | Some n => match nth_item n its with
+                                   | Some e => let (e', r) := v_modify rest tf e in (VSeq KDict (set_nth n e' its) dv, r)
+                                   | None => (VSeq KDict its dv, None)
+                                   end
+                       | None => match dv with
+                                 | Some dt => let (e', r) := v_modify rest tf dt in (VSeq KDict (its ++ [(k, e')]) dv, r)
+                                 | None => (VSeq KDict its dv, None)
+                                 end
+                       end
+                     | None => (VSeq KDict its dv, None)
+                     end) by reflexivity.
+        rewrite VM.
+        assert (KP : forall k, key_of_pelem pe = Some k ->
+                  (let '(h1, l') := make_mut h l in
+                   match find_key k (citems c) with
+                   | Some n =>
+                     match nth_item n (citems c) with
+                     | Some e =>
+                       let h2 := put_item h1 l' n HNull in
+                       let '(h3, e', r) := m_modify rest f h2 e in (put_item h3 l' n e', HRef l' d, r)
+                     | None => (h1, HRef l' d, None)
+                     end
+                   | None =>
+                     match d with
+                     | Some dv0 =>
+                       let h2 := clone_val h1 dv0 in
+                       let n := length (citems c) in
+                       let h3 := set_items h2 l' (citems c ++ [(k, HNull)]) in
+                       let '(h4, e', r) := m_modify rest f h3 dv0 in (put_item h4 l' n e', HRef l' d, r)
+                     | None => (h1, HRef l' d, None)
+                     end
+                   end) = (h', cur', r) ->
+                  mod_post h (HRef l d) G
+                    match find_key k its with
+                    | Some n => match nth_item n its with
+                                | Some e => let (e', r) := v_modify rest tf e in (VSeq KDict (set_nth n e' its) dv, r)
+                                | None => (VSeq KDict its dv, None)
+                                end
+                    | None => match dv with
+                              | Some dt => let (e', r) := v_modify rest tf dt in (VSeq KDict (its ++ [(k, e')]) dv, r)
+                              | None => (VSeq KDict its dv, None)
+                              end
+                    end h' cur' r).
+        { intros k Hk E1. destruct (make_mut h l) as [h1 l'] eqn:MM.
+          rewrite <- (repr_items_find_key _ _ _ k Hits).
+          destruct (find_key k (citems c)) as [n|] eqn:FK.
+          - destruct (nth_item n (citems c)) as [e|] eqn:Ne.
+            + destruct (DESC n e h1 l' Ne eq_refl E1) as [te [Hte HP]]. rewrite Hte. exact HP.
+            + inversion E1; subst. rewrite (repr_items_nth_none _ _ _ _ Hits Ne). eapply mod_fail_mm; eauto.
+          - inversion Hd as [|dv0 dt Hdv0]; subst.
+            + inversion E1; subst. eapply mod_fail_mm; eauto.
+            + (* insert a copy of the default, then go on inside it *)
+              cbv zeta in E1.
+              destruct (m_modify rest f (set_items (clone_val h1 dv0) l' (citems c ++ [(k, HNull)])) dv0) as [[h4 e'] r1] eqn:ER.
+              inversion E1; subst; clear E1.
+              rewrite handles_ref in I. simpl handles_opt in *.
+              assert (Hrk : repr h (HRef l (Some dv0)) (VSeq (ckind c) its (Some dt))) by (rewrite K; exact Hr).
+              destruct (default_open h l dv0 c its dt G h1 l' k I Hrk Hc MM) as [Hdv3 [Hr3 [C3 Sopen]]].
+              set (h3 := set_items (clone_val h1 dv0) l' (citems c ++ [(k, HNull)])) in *.
+              assert (I3 : Inv h3 (handles dv0 ++ l' :: handles_opt (Some dv0) ++ G)).
+              { simpl. eapply Inv_equiv; [|apply (st_inv _ _ _ _ _ Sopen)]. occ_tac. }
+              pose proof (IH h3 dv0 dt (l' :: handles_opt (Some dv0) ++ G) h4 e' r I3 Hdv3 ER) as [Hre' Hres].
+              destruct (v_modify rest tf dt) as [te' tr] eqn:EV. simpl in Hre', Hres.
+              assert (Hn0 : nth_item (length (citems c)) (its ++ [(k, VNull)]) = Some VNull).
+              { rewrite Hlen. apply nth_item_app_last. }
+              destruct r as [res|]; destruct tr as [tres|]; try contradiction.
+              * destruct Hres as [Hrres Srec].
+                destruct (descend_close h3 (handles dv0) l' (Some dv0) G h4 (handles res) (ckind c) (its ++ [(k, VNull)]) (Some dt)
+                            (length (citems c)) e' te') as [Hr4 [Sclose K4]]; auto.
+                { eapply Step_equiv; [| |exact Srec]. intro; tauto. occ_tac. }
+                rewrite Hlen, set_nth_app_last in Hr4. rewrite K in Hr4.
+                split; [rewrite <- Hlen in Hr4; exact Hr4|]. simpl. split.
+                -- apply K4; auto. apply incl_appl, incl_refl.
+                -- rewrite !handles_ref. simpl handles_opt in *.
+                   assert (Srec2 : Step h3 (handles dv0) ((l' :: handles dv0) ++ G) h4 (handles res ++ handles e')) by exact Srec.
+                   apply Step_frame in Srec2.
+                   eapply Step_trans; [exact Sopen|]. eapply Step_trans; [exact Srec2|].
+                   eapply Step_equiv; [| |exact Sclose]. apply in_occ_equiv; occ_tac. occ_tac.
+              * rename Hres into Srec.
+                destruct (descend_close h3 (handles dv0) l' (Some dv0) G h4 [] (ckind c) (its ++ [(k, VNull)]) (Some dt)
+                            (length (citems c)) e' te') as [Hr4 [Sclose K4]]; auto.
+                { rewrite app_nil_r. exact Srec. }
+                rewrite Hlen, set_nth_app_last in Hr4. rewrite K in Hr4. rewrite !app_nil_r in Sclose.
+                split; [rewrite <- Hlen in Hr4; exact Hr4|]. simpl. rewrite !handles_ref. simpl handles_opt in *.
+                assert (Srec2 : Step h3 (handles dv0) ((l' :: handles dv0) ++ G) h4 (handles e')) by exact Srec.
+                apply Step_frame in Srec2.
+                eapply Step_trans; [exact Sopen|]. eapply Step_trans; [exact Srec2|].
+                eapply Step_equiv; [| |exact Sclose]. apply in_occ_equiv; occ_tac. occ_tac. }
+        destruct pe as [z | bs | sid' f0 | lo hi].
+        -- apply (KP (KI z)); auto.
+        -- apply (KP (KB bs)); auto.
+        -- inversion E; subst. simpl. apply mod_fail; auto.
+        -- inversion E; subst. simpl. apply mod_fail; auto.
+      * inversion E; subst. simpl. apply mod_fail; auto.
+      * inversion E; subst. simpl. apply mod_fail; auto.
+      * inversion E; subst. simpl. apply mod_fail; auto.
+    + (* struct instance *)
+      inversion Hr; subst. match goal with H : repr_list _ _ _ |- _ => rename H into Hfs end.
+      simpl in E.
+      destruct pe as [z | bs | sid' fl | lo hi]; try (inversion E; subst; simpl; apply mod_fail; auto; fail).
+      simpl. destruct (Nat.eqb sid sid') eqn:Es; [|inversion E; subst; apply mod_fail; auto].
+      destruct (nth_error fields fl) as [e|] eqn:Ef.
+      2: { inversion E; subst. rewrite (repr_list_nth_none _ _ _ _ Hfs Ef). apply mod_fail; auto. }
+      destruct (repr_list_nth _ _ _ _ _ Hfs Ef) as [te [Hte Hre]]. rewrite Hte.
+      destruct (m_modify rest f h e) as [[h1 e'] r1] eqn:ER. inversion E; subst; clear E.
+      set (others := handles_list (hset_field fl HNull fields)).
+      assert (OC : forall x, occ x (handles_list fields) = occ x (handles e) + occ x others).
+      { intro x. pose proof (occ_list_set_field x fields fl HNull e Ef). rewrite handles_null in H. unfold others. revert H. occ_tac. }
+      rewrite handles_inst in I.
+      assert (I0 : Inv h (handles e ++ others ++ G)).
+      { eapply Inv_equiv; [|exact I]. intro x. specialize (OC x). revert OC. occ_tac. }
+      pose proof (IH h e te (others ++ G) h' e' r I0 Hre ER) as [Hre' Hres].
+      destruct (v_modify rest tf te) as [te' tr] eqn:EV. simpl in Hre', Hres.
+      assert (REP : forall Rout, Step h (handles e) (others ++ G) h' Rout ->
+                    repr h' (HInst sid (hset_field fl e' fields)) (VInst sid (set_field fl te' ts))).
+      { intros Rout S. constructor.
+        assert (Ho : repr h (HInst sid (hset_field fl HNull fields)) (VInst sid (set_field fl VNull ts))).
+        { constructor. apply repr_list_set_field; auto. constructor. }
+        eapply (Step_frame_repr _ _ _ _ _ _ _ _ S) in Ho.
+        2: { rewrite handles_inst. apply incl_appl, incl_refl. }
+        inversion Ho; subst.
+        match goal with H : repr_list h' _ _ |- _ => pose proof (repr_list_set_field _ _ _ fl _ _ H Hre') as Hx end.
+        rewrite hset_field_twice, set_field_twice in Hx. exact Hx. }
+      assert (OC' : forall x, occ x (handles_list (hset_field fl e' fields)) = occ x (handles e') + occ x others).
+      { intro x. pose proof (occ_list_set_field x fields fl e' e Ef). specialize (OC x). revert H OC. occ_tac. }
+      destruct r as [res|]; destruct tr as [tres|]; try contradiction.
+      * destruct Hres as [Hrres S]. split; [eapply REP; eauto|]. simpl. split; auto.
+        rewrite !handles_inst. apply Step_frame in S.
+        eapply Step_equiv; [| |exact S].
+        -- apply in_occ_equiv. intro x. specialize (OC x). revert OC. occ_tac.
+        -- intro x. specialize (OC' x). revert OC'. occ_tac.
+      * split; [eapply REP; eauto|]. simpl.
+        rewrite !handles_inst. apply Step_frame in Hres.
+        eapply Step_equiv; [| |exact Hres].
+        -- apply in_occ_equiv. intro x. specialize (OC x). revert OC. occ_tac.
+        -- intro x. specialize (OC' x). revert OC'. occ_tac.
+Qed.
+
+(* ------------------------------------------------------------------ the slot functions: pop, remove, consume *)
+Lemma consume_ok : mod_spec m_f_consume f_consume.
+Proof.
+  intros h cur t G h' cur' r I Hr E. unfold m_f_consume in E. inversion E; subst. unfold f_consume.
+  split; [constructor|]. simpl. split; auto. rewrite handles_null, app_nil_r. apply Step_refl; auto.
+Qed.
+
+Lemma occ_items_del_nth x its n e :
+  nth_item n its = Some e ->
+  occ x (handles_items its) = occ x (handles_items (del_nth n its)) + occ x (handles e).
+Proof.
+  unfold nth_item, handles_items. revert n. induction its as [|[k y] its IH]; destruct n; simpl; intros H; try discriminate.
+  - inversion H; subst. rewrite !occ_app. lia.
+  - rewrite !occ_app. specialize (IH n H). lia.
+Qed.
+
+Lemma repr_items_del_nth h es ts n : repr_items h es ts -> repr_items h (del_nth n es) (del_nth n ts).
+Proof. intro H. revert n. induction H; destruct n; simpl; auto; constructor; auto. Qed.
+
+Lemma removelast_del_nth {A} (l : list A) : removelast l = del_nth (length l - 1) l.
+Proof.
+  induction l as [|a l IH]; simpl; auto. destruct l as [|b l]; simpl; auto.
+  simpl in IH. rewrite IH. rewrite Nat.sub_0_r. reflexivity.
+Qed.
+
+Lemma slice_bounds_le len lo hi a b : slice_bounds len lo hi = (a, b) -> a <= b.
+Proof. unfold slice_bounds. intro H. inversion H; subst. lia. Qed.
+
+Lemma skipn_add {A} (l : list A) x y : skipn x (skipn y l) = skipn (y + x) l.
+Proof. revert l. induction y; intro l; simpl; auto. destruct l; simpl; auto. destruct x; auto. Qed.
+
+Lemma skipn_sub_split {A} (l : list A) a b : a <= b -> skipn a l = firstn (b - a) (skipn a l) ++ skipn b l.
+Proof.
+  intro H. rewrite <- (firstn_skipn (b - a) (skipn a l)) at 1. f_equal.
+  rewrite skipn_add. f_equal. lia.
+Qed.
+
+Lemma occ_items_slice x (its : list (key * hval)) a b :
+  a <= b ->
+  occ x (handles_items its) = occ x (handles_items (firstn a its ++ skipn b its)) + occ x (handles_items (sub_items its a b)).
+Proof.
+  intro H. rewrite <- (firstn_skipn a its) at 1. rewrite (skipn_sub_split its a b H).
+  unfold sub_items. rewrite !handles_items_app, !occ_app. lia.
+Qed.
+
+(* make_mut, then move some items out of the cell *)
+Lemma extract_ok h l d c its dv G h1 l' its' ts' Rmoved :
+  Inv h ((l :: handles_opt d) ++ G) ->
+  repr h (HRef l d) (VSeq (ckind c) its dv) -> get_cell h l = Some c -> make_mut h l = (h1, l') ->
+  (forall x, occ x (handles_items (citems c)) = occ x (handles_items its') + occ x Rmoved) ->
+  (forall hh, repr_items hh (citems c) its -> repr_items hh its' ts') ->
+  let h2 := set_items h1 l' its' in
+  repr h2 (HRef l' d) (VSeq (ckind c) ts' dv) /\
+  Step h (l :: handles_opt d) G h2 (Rmoved ++ l' :: handles_opt d) /\
+  (forall e te, incl (handles e) (handles_items (citems c)) -> repr h e te -> repr h2 e te) /\
+  (forall es ts, incl (handles_items es) (handles_items (citems c)) -> repr_items h es ts -> repr_items h2 es ts) /\
+  (forall m, m <> l' -> same_body h h2 m).
+Proof.
+  intros I Hr Hc MM EX TR h2.
+  destruct (make_mut_facts h _ G l d _ h1 l' I Hr MM) as [c0 [c1 [Hc0 [Hc1 [K1 [I1 [C1 [Inv1 [S1 [Hr1 B1]]]]]]]]]].
+  rewrite Hc in Hc0. inversion Hc0; subst c0. clear Hc0.
+  destruct (inplace_update h1 l' c1 (handles_opt d) (Rmoved ++ handles_opt d) its' G Inv1 Hc1 C1)
+    as [S2 [Hc2 [T1 [T2 [T3 [N1 [U1 U2]]]]]]].
+  { intro x. rewrite I1. specialize (EX x). revert EX. occ_tac. }
+  fold h2 in S2, Hc2, T1, T2, T3.
+  destruct (repr_ref_inv _ _ _ _ _ _ Hr1) as [c1' [Hc1' [_ [Hits1 Hd1]]]].
+  rewrite Hc1 in Hc1'. inversion Hc1'; subst c1'. clear Hc1'.
+  rewrite I1 in N1.
+  split; [|split; [|split; [|split]]].
+  - rewrite <- K1. change (ckind c1) with (ckind (mkcell 1 (ckind c1) its')). apply R_ref; auto.
+    + simpl. apply TR. rewrite <- I1. apply T2; auto. rewrite I1. auto.
+    + apply T3; auto. apply occ_notIn; auto.
+  - eapply Step_trans; [exact S1|]. eapply Step_equiv; [| |exact S2]. intro; tauto. occ_tac.
+  - intros e te Ie He. apply T1. { intro Hin. apply N1. apply Ie. auto. } eapply repr_ext; eauto.
+  - intros es ts Ie He. apply T2. { intro Hin. apply N1. apply Ie. auto. } eapply repr_items_ext; eauto.
+  - intros m Hm. eapply same_body_trans; [apply B1|]. apply set_items_same_body_others. auto.
+Qed.
+
+Lemma pop_ok : mod_spec m_f_pop f_pop.
+Proof.
+  intros h cur t G h' cur' r I Hr E.
+  destruct cur as [| z | l d | sid fs]; simpl in E;
+    try (inversion E; subst; inversion Hr; subst; simpl; apply mod_fail; auto; fail).
+  destruct (repr_ref_inv_gen _ _ _ _ Hr) as [c [its [dv [Ht [Hc [Hits Hd]]]]]]. subst t.
+  pose proof (repr_items_length _ _ _ Hits) as Hlen.
+  rewrite Hc in E.
+  destruct (ckind c) eqn:K; try (inversion E; subst; simpl; apply mod_fail; auto; fail).
+  destruct (make_mut h l) as [h1 l'] eqn:MM. simpl. rewrite <- Hlen.
+  destruct (nth_item (length (citems c) - 1) (citems c)) as [e|] eqn:Ne.
+  2: { inversion E; subst. rewrite (repr_items_nth_none _ _ _ _ Hits Ne). eapply mod_fail_mm; eauto. }
+  destruct (repr_items_nth _ _ _ _ _ Hits Ne) as [te [Hte Hre]]. rewrite Hte.
+  inversion E; subst; clear E.
+  rewrite handles_ref in I. rewrite <- K in Hr.
+  destruct (extract_ok h l d c its dv G h1 l' (removelast (citems c)) (removelast its) (handles e) I Hr Hc MM)
+    as [Hr2 [S2 [T1 _]]].
+  { intro x. rewrite removelast_del_nth. apply occ_items_del_nth. auto. }
+  { intros hh Hh. rewrite !removelast_del_nth, Hlen. apply repr_items_del_nth; auto. }
+  rewrite K in Hr2. split; [exact Hr2|]. simpl. split.
+  - apply T1; auto. eapply handles_items_nth; eauto.
+  - rewrite !handles_ref. exact S2.
+Qed.
+
+Opaque alloc slice_bounds.
+Lemma remove_ok pe : mod_spec (m_f_remove pe) (f_remove pe).
+Proof.
+  intros h cur t G h' cur' r I Hr E.
+  destruct cur as [| z | l d | sid fs]; simpl in E;
+    try (inversion E; subst; inversion Hr; subst; simpl; apply mod_fail; auto; fail).
+  destruct (repr_ref_inv_gen _ _ _ _ Hr) as [c [its [dv [Ht [Hc [Hits Hd]]]]]]. subst t.
+  pose proof (repr_items_length _ _ _ Hits) as Hlen.
+  rewrite Hc in E.
+  destruct (ckind c) eqn:K; try (inversion E; subst; simpl; apply mod_fail; auto; fail).
+  - (* list *)
+    destruct pe as [z | bs | sid' f | lo hi]; try (inversion E; subst; simpl; apply mod_fail; auto; fail).
+    + simpl. rewrite <- Hlen. destruct (norm_index (length (citems c)) z) as [n|] eqn:NI.
+      2: { inversion E; subst. apply mod_fail; auto. }
+      destruct (nth_item n (citems c)) as [e|] eqn:Ne.
+      2: { inversion E; subst. rewrite (repr_items_nth_none _ _ _ _ Hits Ne). apply mod_fail; auto. }
+      destruct (repr_items_nth _ _ _ _ _ Hits Ne) as [te [Hte Hre]]. rewrite Hte.
+      destruct (make_mut h l) as [h1 l'] eqn:MM. inversion E; subst; clear E.
+      rewrite handles_ref in I. rewrite <- K in Hr.
+      destruct (extract_ok h l d c its dv G h1 l' (del_nth n (citems c)) (del_nth n its) (handles e) I Hr Hc MM)
+        as [Hr2 [S2 [T1 _]]].
+      { intro x. apply occ_items_del_nth. auto. }
+      { intros hh Hh. apply repr_items_del_nth; auto. }
+      rewrite K in Hr2. split; [exact Hr2|]. simpl. split.
+      * apply T1; auto. eapply handles_items_nth; eauto.
+      * rewrite !handles_ref. exact S2.
+    + unfold f_remove. rewrite <- Hlen. destruct (slice_bounds (length (citems c)) lo hi) as [a b] eqn:SB.
+      pose proof (slice_bounds_le _ _ _ _ _ SB) as Hab.
+      destruct (make_mut h l) as [h1 l'] eqn:MM.
+      destruct (alloc (set_items h1 l' (firstn a (citems c) ++ skipn b (citems c))) KList (sub_items (citems c) a b)) as [h3 lr] eqn:EA.
+      inversion E; subst; clear E.
+      rewrite handles_ref in I. rewrite <- K in Hr.
+      destruct (extract_ok h l d c its dv G h1 l' (firstn a (citems c) ++ skipn b (citems c)) (firstn a its ++ skipn b its)
+                  (handles_items (sub_items (citems c) a b)) I Hr Hc MM) as [Hr2 [S2 [T1 [T2 _]]]].
+      { intro x. apply occ_items_slice. auto. }
+      { intros hh Hh. apply repr_items_app; [apply repr_items_firstn | apply repr_items_skipn]; auto. }
+      set (h2 := set_items h1 l' (firstn a (citems c) ++ skipn b (citems c))) in *.
+      assert (I2 : Inv h2 ((handles_items (sub_items (citems c) a b) ++ l' :: handles_opt d) ++ G)) by apply S2.
+      destruct (alloc_step' h2 (l' :: handles_opt d) G KList (sub_items (citems c) a b) h' lr EA I2) as [S3 B3].
+      rewrite K in Hr2. split; [eapply repr_ext; eauto|]. simpl. split.
+      * eapply alloc_repr; eauto. apply T2. apply handles_items_sub. apply repr_items_sub; auto.
+      * rewrite !handles_ref. simpl. eapply Step_trans; [exact S2|]. exact S3.
+  - (* dict *)
+    destruct pe as [z | bs | sid' f | lo hi]; try (inversion E; subst; simpl; apply mod_fail; auto; fail).
+    + destruct (make_mut h l) as [h1 l'] eqn:MM. simpl in E. simpl.
+      rewrite <- (repr_items_find_key _ _ _ (KI z) Hits).
+      destruct (find_key (KI z) (citems c)) as [n|] eqn:FK; [|inversion E; subst; eapply mod_fail_mm; eauto].
+      destruct (nth_item n (citems c)) as [e|] eqn:Ne.
+      2: { inversion E; subst. rewrite (repr_items_nth_none _ _ _ _ Hits Ne). eapply mod_fail_mm; eauto. }
+      destruct (repr_items_nth _ _ _ _ _ Hits Ne) as [te [Hte Hre]]. rewrite Hte.
+      inversion E; subst; clear E.
+      rewrite handles_ref in I. rewrite <- K in Hr.
+      destruct (extract_ok h l d c its dv G h1 l' (del_nth n (citems c)) (del_nth n its) (handles e) I Hr Hc MM)
+        as [Hr2 [S2 [T1 _]]].
+      { intro x. apply occ_items_del_nth. auto. }
+      { intros hh Hh. apply repr_items_del_nth; auto. }
+      rewrite K in Hr2. split; [exact Hr2|]. simpl. split.
+      * apply T1; auto. eapply handles_items_nth; eauto.
+      * rewrite !handles_ref. exact S2.
+    + destruct (make_mut h l) as [h1 l'] eqn:MM. simpl in E. simpl.
+      rewrite <- (repr_items_find_key _ _ _ (KB bs) Hits).
+      destruct (find_key (KB bs) (citems c)) as [n|] eqn:FK; [|inversion E; subst; eapply mod_fail_mm; eauto].
+      destruct (nth_item n (citems c)) as [e|] eqn:Ne.
+      2: { inversion E; subst. rewrite (repr_items_nth_none _ _ _ _ Hits Ne). eapply mod_fail_mm; eauto. }
+      destruct (repr_items_nth _ _ _ _ _ Hits Ne) as [te [Hte Hre]]. rewrite Hte.
+      inversion E; subst; clear E.
+      rewrite handles_ref in I. rewrite <- K in Hr.
+      destruct (extract_ok h l d c its dv G h1 l' (del_nth n (citems c)) (del_nth n its) (handles e) I Hr Hc MM)
+        as [Hr2 [S2 [T1 _]]].
+      { intro x. apply occ_items_del_nth. auto. }
+      { intros hh Hh. apply repr_items_del_nth; auto. }
+      rewrite K in Hr2. split; [exact Hr2|]. simpl. split.
+      * apply T1; auto. eapply handles_items_nth; eauto.
+      * rewrite !handles_ref. exact S2.
+    + destruct (make_mut h l) as [h1 l'] eqn:MM. simpl in E. inversion E; subst. simpl. eapply mod_fail_mm; eauto.
+Qed.
+Transparent alloc slice_bounds.
+
+(* ------------------------------------------------------------------ statements on a variable: take its content, put the result back *)
+Lemma root_update h rs sg x cur h1 cur' t' Rin Rres :
+  nth_error rs x = Some cur -> repr_list h rs sg ->
+  Step h Rin (handles_list (set_root rs x HNull)) h1 (Rres ++ handles cur') ->
+  repr h1 cur' t' ->
+  Inv h1 (Rres ++ handles_list (set_root rs x cur')) /\
+  repr_list h1 (set_root rs x cur') (set_var sg x t').
+Proof.
+  intros Ex Hrs S Hr'. set (others := handles_list (set_root rs x HNull)) in *. split.
+  - eapply Inv_equiv; [|apply (st_inv _ _ _ _ _ S)].
+    intro l. pose proof (roots_put x rs cur cur' Ex l). fold others in H. revert H. occ_tac.
+  - assert (Ho : repr h (HInst 0 (set_root rs x HNull)) (VInst 0 (set_field x VNull sg))).
+    { constructor. apply repr_list_set_field; auto. constructor. }
+    apply (st_frame _ _ _ _ _ S) in Ho; [|rewrite handles_inst; apply incl_refl].
+    inversion Ho; subst.
+    match goal with H : repr_list h1 _ _ |- _ => pose proof (repr_list_set_field _ _ _ x _ _ H Hr') as Hx end.
+    unfold set_root in Hx. rewrite hset_field_twice, set_field_twice in Hx. exact Hx.
+Qed.
+
+Lemma root_take h rs x cur :
+  nth_error rs x = Some cur -> Inv h (handles_list rs) ->
+  Inv h (handles cur ++ handles_list (set_root rs x HNull)).
+Proof.
+  intros Ex I. eapply Inv_equiv; [|exact I]. intro l. pose proof (roots_split x rs cur Ex l). revert H. occ_tac.
+Qed.
+
+Definition is_modlop (m : lop) : bool :=
+  match m with LPop _ | LRemove _ _ | LConsume _ => true | _ => false end.
+
+Lemma m_lop_mod_ok m : is_modlop m = true -> mod_spec (m_lop m) (lop_apply m).
+Proof.
+  destruct m; simpl; intro H; try discriminate.
+  - apply m_modify_ok. apply pop_ok.
+  - apply m_modify_ok. apply remove_ok.
+  - apply m_modify_ok. apply consume_ok.
+Qed.
+
+Lemma exec_mod_ok dst x m : is_modlop m = true ->
+  match dst with Some (y, q) => noslice q = true | None => True end ->
+  forall h rs sg st' ok,
+  Inv h (handles_list rs) -> repr_list h rs sg ->
+  m_exec_s (mkst h rs) (SMod dst x m) = (st', ok) ->
+  exists sg', exec_s sg (SMod dst x m) = (sg', ok) /\ StInv st' /\ Sim st' sg'.
+Proof.
+  intros HM HD h rs sg st' ok I Hrs E. simpl in E. simpl.
+  destruct (nth_error rs x) as [cur|] eqn:Ex.
+  2: { inversion E; subst. rewrite (repr_list_nth_none _ _ _ _ Hrs Ex). eexists; split; [reflexivity|]. split; auto. }
+  destruct (repr_list_nth _ _ _ _ _ Hrs Ex) as [tcur [Htc Hcur]]. rewrite Htc.
+  destruct (m_lop m h cur) as [[h1 cur'] r] eqn:EL.
+  pose proof (root_take h rs x cur Ex I) as I0.
+  pose proof (m_lop_mod_ok m HM h cur tcur _ h1 cur' r I0 Hcur EL) as [Hr' Hres].
+  destruct (lop_apply m tcur) as [t' tr] eqn:EV. simpl in Hr', Hres.
+  destruct r as [res|]; destruct tr as [tres|]; try contradiction.
+  - destruct Hres as [Hrres S].
+    destruct (root_update h rs sg x cur h1 cur' t' _ (handles res) Ex Hrs S Hr') as [I1 Hrs1].
+    destruct dst as [[y q]|].
+    + eapply m_assign_to_ok; eauto.
+    + inversion E; subst; clear E.
+      destruct (drop_val_keep h1 res (handles_list (set_root rs x cur')) []) as [S2 K2].
+      { rewrite app_nil_r. auto. }
+      eexists; split; [reflexivity|]. split.
+      * unfold StInv. simpl. pose proof (st_inv _ _ _ _ _ S2) as I2. rewrite app_nil_r in I2. auto.
+      * unfold Sim. simpl. apply repr_list_as_inst. apply K2.
+        -- rewrite handles_inst, app_nil_r. apply incl_refl.
+        -- apply repr_list_as_inst. auto.
+  - inversion E; subst; clear E.
+    assert (S' : Step h (handles cur) (handles_list (set_root rs x HNull)) h1 ([] ++ handles cur')) by exact Hres.
+    destruct (root_update h rs sg x cur h1 cur' t' _ [] Ex Hrs S' Hr') as [I1 Hrs1].
+    eexists; split; [reflexivity|]. split; auto.
+Qed.
+
+(* ------------------------------------------------------------------ the consuming builtins *)
+Definition bop_post (h : heap) (a b : hval) (G : list loc) (tr : option val) (h' : heap) (r : option hval) : Prop :=
+  match r, tr with
+  | Some res, Some t => repr h' res t /\ Step h (handles a ++ handles b) G h' (handles res)
+  | None, None => Step h (handles a ++ handles b) G h' []
+  | _, _ => False
+  end.
+
+Lemma drop2_ok h a b G : Inv h ((handles a ++ handles b) ++ G) -> Step h (handles a ++ handles b) G (drop2 h a b) [].
+Proof.
+  intro I. unfold drop2.
+  destruct (drop_val_step h a (handles b) G I) as [S1 _].
+  assert (I1 : Inv (drop_val h a) ((handles b ++ []) ++ G)) by (rewrite app_nil_r; apply S1).
+  destruct (drop_val_step (drop_val h a) b [] G I1) as [S2 _].
+  eapply Step_trans; [exact S1|]. rewrite app_nil_r in S2. exact S2.
+Qed.
+
+Lemma kind_of_repr h v t k :
+  repr h v t -> kind_of h v = Some k ->
+  exists l d c its dv, v = HRef l d /\ get_cell h l = Some c /\ ckind c = k /\ t = VSeq k its dv /\
+                       repr_items h (citems c) its /\ repr_opt h d dv.
+Proof.
+  intros Hr Hk. destruct v as [| z | l d | sid fs]; simpl in Hk; try discriminate.
+  destruct (repr_ref_inv_gen _ _ _ _ Hr) as [c [its [dv [Ht [Hc [Hits Hd]]]]]].
+  rewrite Hc in Hk. inversion Hk; subst. exists l, d, c, its, dv. repeat split; auto.
+Qed.
+
+Lemma kind_of_none h v t : repr h v t -> kind_of h v = None -> forall k its dv, t <> VSeq k its dv.
+Proof.
+  intros Hr Hk k its dv Ht. subst. inversion Hr; subst. simpl in Hk.
+  match goal with H : get_cell _ _ = Some _ |- _ => rewrite H in Hk end. discriminate.
+Qed.
+
+Lemma items_of_eq h l c : get_cell h l = Some c -> items_of h l = citems c.
+Proof. intro H. unfold items_of. rewrite H. reflexivity. Qed.
+
+(* append to a list/vector/bytes payload: make_mut, push *)
+Lemma push_ok h l d c its dv b tb G h1 l' :
+  Inv h ((handles (HRef l d) ++ handles b) ++ G) ->
+  repr h (HRef l d) (VSeq (ckind c) its dv) -> repr h b tb ->
+  get_cell h l = Some c -> make_mut h l = (h1, l') ->
+  let h2 := set_items h1 l' (items_of h1 l' ++ [(nokey, b)]) in
+  repr h2 (HRef l' d) (VSeq (ckind c) (its ++ [(nokey, tb)]) dv) /\
+  Step h (handles (HRef l d) ++ handles b) G h2 (handles (HRef l' d)).
+Proof.
+  intros I Hr Hb Hc MM h2. rewrite !handles_ref in *.
+  assert (I' : Inv h ((l :: handles_opt d ++ handles b) ++ G)) by (eapply Inv_equiv; [|exact I]; occ_tac).
+  destruct (make_mut_facts h _ G l d _ h1 l' I' Hr MM) as [c0 [c1 [Hc0 [Hc1 [K1 [I1 _]]]]]].
+  rewrite Hc in Hc0. inversion Hc0; subst c0.
+  assert (E : items_of h1 l' = citems c) by (rewrite (items_of_eq _ _ _ Hc1); auto).
+  unfold h2. rewrite E.
+  destruct (add_item_ok h l d c its dv nokey b tb G h1 l' I' Hr Hb Hc MM) as [Hr2 S2].
+  split; auto.
+Qed.
+
+Lemma mm_then_drop2 h l d t b G h1 l' :
+  Inv h ((handles (HRef l d) ++ handles b) ++ G) -> repr h (HRef l d) t -> make_mut h l = (h1, l') ->
+  Step h (handles (HRef l d) ++ handles b) G (drop2 h1 (HRef l' d) b) [].
+Proof.
+  intros I Hr MM. rewrite !handles_ref in *.
+  assert (I' : Inv h ((l :: handles_opt d ++ handles b) ++ G)) by (eapply Inv_equiv; [|exact I]; occ_tac).
+  destruct (make_mut_facts h _ G l d _ h1 l' I' Hr MM) as [c0 [c1 [Hc0 [Hc1 [K1 [I1 [C1 [Inv1 [S1 _]]]]]]]]].
+  assert (I1' : Inv h1 ((handles (HRef l' d) ++ handles b) ++ G)).
+  { rewrite handles_ref. eapply Inv_equiv; [|exact Inv1]. occ_tac. }
+  pose proof (drop2_ok h1 (HRef l' d) b G I1') as S2. rewrite handles_ref in S2.
+  eapply Step_trans; [|exact S2]. eapply Step_equiv; [| |exact S1]. apply in_occ_equiv; occ_tac. occ_tac.
+Qed.
+
+Lemma bop_append_ok h a b ta tb G h' r :
+  Inv h ((handles a ++ handles b) ++ G) -> repr h a ta -> repr h b tb ->
+  m_bop BAppend h a b = (h', r) -> bop_post h a b G (bop_apply BAppend ta tb) h' r.
+Proof.
+  intros I Ha Hb E. unfold m_bop in E.
+  destruct (kind_of h a) as [k|] eqn:KA.
+  2: { inversion E; subst. unfold bop_post.
+       assert (bop_apply BAppend ta tb = None).
+       { pose proof (kind_of_none _ _ _ Ha KA). destruct ta; auto. exfalso. eapply H; eauto. }
+       rewrite H. apply drop2_ok; auto. }
+  destruct (kind_of_repr _ _ _ _ Ha KA) as [l [d [c [its [dv [Ea [Hc [Kc [Et [Hits Hd]]]]]]]]]]. subst a ta.
+  simpl ref_loc in E. simpl ref_dflt in E.
+  assert (NOK : (h', r) = (drop2 h (HRef l d) b, None) -> bop_apply BAppend (VSeq k its dv) tb = None ->
+                bop_post h (HRef l d) b G (bop_apply BAppend (VSeq k its dv) tb) h' r).
+  { intros E1 E2. inversion E1; subst. rewrite E2. apply drop2_ok; auto. }
+  rewrite <- Kc in Ha.
+  destruct k; try (apply NOK; [symmetry; exact E | reflexivity]).
+  - (* list *)
+    destruct (make_mut h l) as [h1 l'] eqn:MM. inversion E; subst; clear E.
+    destruct (push_ok h l d c its dv b tb G h1 l' I Ha Hb Hc MM) as [Hr2 S2].
+    simpl. rewrite Kc in Hr2. split; auto.
+  - (* vector *)
+    destruct (make_mut h l) as [h1 l'] eqn:MM.
+    destruct b as [| z | lb db | sid fs]; inversion Hb; subst;
+      try (inversion E; subst; simpl; eapply mm_then_drop2; eauto; fail).
+    inversion E; subst; clear E.
+    destruct (push_ok h l d c its dv (HInt z) (VInt z) G h1 l' I Ha Hb Hc MM) as [Hr2 S2].
+    simpl. rewrite Kc in Hr2. split; auto.
+  - (* bytes *)
+    destruct (make_mut h l) as [h1 l'] eqn:MM.
+    destruct b as [| z | lb db | sid fs]; inversion Hb; subst;
+      try (inversion E; subst; simpl; eapply mm_then_drop2; eauto; fail).
+    simpl. destruct (is_byte z).
+    + inversion E; subst; clear E.
+      destruct (push_ok h l d c its dv (HInt z) (VInt z) G h1 l' I Ha Hb Hc MM) as [Hr2 S2].
+      rewrite Kc in Hr2. split; auto.
+    + inversion E; subst. eapply mm_then_drop2; eauto.
+Qed.
+
+Lemma hmap_plus_repr h z es ts :
+  repr_items h es ts ->
+  match hmap_plus z es with
+  | Some r => exists tr, map_plus z ts = Some tr /\ repr_items h r tr /\ handles_items r = []
+  | None => map_plus z ts = None
+  end.
+Proof.
+  induction 1; simpl.
+  - exists []. repeat split; constructor.
+  - destruct e; inversion H; subst; simpl; auto.
+    destruct (hmap_plus z es) as [r|].
+    + destruct IHrepr_items as [tr [E1 [E2 E3]]]. rewrite E1. exists ((nokey, VInt (z0 + z)) :: tr).
+      split; auto. split; [constructor; auto; constructor|].
+      unfold handles_items in *. simpl. rewrite E3, handles_int. reflexivity.
+    + rewrite IHrepr_items. reflexivity.
+Qed.
+
+Lemma hzip_plus_repr h es ts es' ts' :
+  repr_items h es ts -> repr_items h es' ts' ->
+  match hzip_plus es es' with
+  | Some r => exists tr, zip_plus ts ts' = Some tr /\ repr_items h r tr /\ handles_items r = []
+  | None => zip_plus ts ts' = None
+  end.
+Proof.
+  intro H. revert es' ts'. induction H; intros es' ts' H'; inversion H'; subst; simpl.
+  - exists []. repeat split; constructor.
+  - reflexivity.
+  - destruct e; inversion H; subst; reflexivity.
+  - destruct e; inversion H; subst; simpl; auto.
+    destruct e0; inversion H1; subst; simpl; auto.
+    specialize (IHrepr_items _ _ H2).
+    destruct (hzip_plus es es0) as [r|].
+    + destruct IHrepr_items as [tr [E1 [E2 E3]]]. rewrite E1. exists ((nokey, VInt (z + z0)) :: tr).
+      split; auto. split; [constructor; auto; constructor|].
+      unfold handles_items in *. simpl. rewrite E3, handles_int. reflexivity.
+    + rewrite IHrepr_items. reflexivity.
+Qed.
+
+(* a fresh vector with scalar items, then both operands are dropped *)
+Lemma fresh_vec_ok h a b G its ts :
+  Inv h ((handles a ++ handles b) ++ G) -> repr_items h its ts -> handles_items its = [] ->
+  forall h1 l', alloc h KVec its = (h1, l') ->
+  repr (drop2 h1 a b) (HRef l' None) (VSeq KVec ts None) /\
+  Step h (handles a ++ handles b) G (drop2 h1 a b) (handles (HRef l' None)).
+Proof.
+  intros I Hits Hn h1 l' EA.
+  assert (I0 : Inv h ((handles_items its ++ handles a ++ handles b) ++ G)).
+  { rewrite Hn. simpl. auto. }
+  destruct (alloc_step' h (handles a ++ handles b) G KVec its h1 l' EA I0) as [S1 B1].
+  pose proof (alloc_repr h KVec its ts h1 l' EA Hits) as Hr1.
+  assert (I1 : Inv h1 ((handles a ++ handles b) ++ l' :: G)).
+  { eapply Inv_equiv; [|apply S1]. occ_tac. }
+  pose proof (drop2_ok h1 a b (l' :: G) I1) as S2.
+  split.
+  - eapply (st_frame _ _ _ _ _ S2); eauto. rewrite handles_ref. simpl. intros x Hx. simpl in Hx. destruct Hx; [left; auto|contradiction].
+  - rewrite handles_ref. simpl.
+    assert (S2' : Step h1 (handles a ++ handles b) ([l'] ++ G) (drop2 h1 a b) []) by exact S2.
+    apply Step_frame in S2'. simpl in S2'.
+    eapply Step_trans; [|exact S2']. rewrite Hn in S1. simpl in S1.
+    eapply Step_equiv; [| |exact S1]. intro; tauto. occ_tac.
+Qed.
+
+Opaque alloc.
+Lemma bop_plus_ok h a b ta tb G h' r :
+  Inv h ((handles a ++ handles b) ++ G) -> repr h a ta -> repr h b tb ->
+  m_bop BPlus h a b = (h', r) -> bop_post h a b G (bop_apply BPlus ta tb) h' r.
+Proof.
+  intros I Ha Hb E. unfold m_bop in E.
+  assert (NOK : (h', r) = (drop2 h a b, None) -> bop_apply BPlus ta tb = None ->
+                bop_post h a b G (bop_apply BPlus ta tb) h' r).
+  { intros E1 E2. inversion E1; subst. rewrite E2. apply drop2_ok; auto. }
+  assert (VEC : forall its ts, repr_items h its ts -> handles_items its = [] ->
+                (let '(h1, l') := alloc h KVec its in (drop2 h1 a b, Some (HRef l' None))) = (h', r) ->
+                bop_apply BPlus ta tb = Some (VSeq KVec ts None) ->
+                bop_post h a b G (bop_apply BPlus ta tb) h' r).
+  { intros its ts Hits Hn E1 E2. destruct (alloc h KVec its) as [h1 l'] eqn:EA. inversion E1; subst.
+    rewrite E2. destruct (fresh_vec_ok h a b G its ts I Hits Hn h1 l' EA). split; auto. }
+  destruct a as [| x | la da | sa fa]; destruct b as [| y | lb db | sb fb];
+    inversion Ha; subst; inversion Hb; subst; simpl in E;
+    try (apply NOK; [symmetry; exact E | reflexivity]).
+  - (* int + int *)
+    inversion E; subst. simpl. split; [constructor|]. rewrite !handles_int. simpl. apply Step_refl. rewrite !handles_int in I. auto.
+  - (* int + vector *)
+    match goal with H : get_cell h lb = Some ?c |- _ => rename H into Hcb; rename c into cb end.
+    rewrite Hcb in E. destruct (ckind cb) eqn:Kb; try (apply NOK; [symmetry; exact E | reflexivity]).
+    rewrite (items_of_eq _ _ _ Hcb) in E.
+    match goal with H : repr_items h (citems cb) ?ts |- _ => pose proof (hmap_plus_repr h x _ _ H) as HM end.
+    destruct (hmap_plus x (citems cb)) as [rr|].
+    + destruct HM as [tr [E1 [E2 E3]]]. eapply VEC; eauto. simpl. rewrite E1. reflexivity.
+    + apply NOK; [symmetry; exact E|]. simpl. rewrite HM. reflexivity.
+  - (* vector + ... *)
+    match goal with H : get_cell h la = Some ?c |- _ => rename H into Hca; rename c into ca end.
+    rewrite Hca in E. destruct (ckind ca) eqn:Ka; try (apply NOK; [symmetry; exact E | reflexivity]).
+  - match goal with H : get_cell h la = Some ?c |- _ => rename H into Hca; rename c into ca end.
+    rewrite Hca in E. destruct (ckind ca) eqn:Ka; try (apply NOK; [symmetry; exact E | reflexivity]).
+    rewrite (items_of_eq _ _ _ Hca) in E.
+    match goal with H : repr_items h (citems ca) ?ts |- _ => pose proof (hmap_plus_repr h y _ _ H) as HM end.
+    destruct (hmap_plus y (citems ca)) as [rr|].
+    + destruct HM as [tr [E1 [E2 E3]]]. eapply VEC; eauto. simpl. rewrite E1. reflexivity.
+    + apply NOK; [symmetry; exact E|]. simpl. rewrite HM. reflexivity.
+  - match goal with H : get_cell h la = Some ?c |- _ => rename H into Hca; rename c into ca end.
+    match goal with H : get_cell h lb = Some ?c |- _ => rename H into Hcb; rename c into cb end.
+    rewrite Hca, Hcb in E.
+    destruct (ckind ca) eqn:Ka; try (apply NOK; [symmetry; exact E | destruct (ckind cb); reflexivity]).
+    destruct (ckind cb) eqn:Kb; try (apply NOK; [symmetry; exact E | reflexivity]).
+    rewrite (items_of_eq _ _ _ Hca), (items_of_eq _ _ _ Hcb) in E.
+    match goal with H1 : repr_items h (citems ca) _, H2 : repr_items h (citems cb) _ |- _ =>
+      pose proof (hzip_plus_repr h _ _ _ _ H1 H2) as HM end.
+    destruct (hzip_plus (citems ca) (citems cb)) as [rr|].
+    + destruct HM as [tr [E1 [E2 E3]]]. eapply VEC; eauto. simpl. rewrite E1. reflexivity.
+    + apply NOK; [symmetry; exact E|]. simpl. rewrite HM. reflexivity.
+  - match goal with H : get_cell h la = Some ?c |- _ => rename H into Hca; rename c into ca end.
+    rewrite Hca in E. destruct (ckind ca) eqn:Ka; try (apply NOK; [symmetry; exact E | reflexivity]).
+Qed.
+Transparent alloc.
+
+Lemma cnt_of_cell h l c : get_cell h l = Some c -> cnt_of h l = cnt c.
+Proof. intro H. unfold cnt_of. rewrite H. reflexivity. Qed.
+
+(* a ++ b on two payloads of the same list-like kind: make_mut both, move b's items behind a's *)
+Lemma concat_ok h l1 d1 c1 its1 dv1 l2 d2 c2 its2 dv2 G h1 la h2 lb :
+  Inv h ((handles (HRef l1 d1) ++ handles (HRef l2 d2)) ++ G) ->
+  repr h (HRef l1 d1) (VSeq (ckind c1) its1 dv1) -> repr h (HRef l2 d2) (VSeq (ckind c2) its2 dv2) ->
+  get_cell h l1 = Some c1 -> get_cell h l2 = Some c2 ->
+  make_mut h l1 = (h1, la) -> make_mut h1 l2 = (h2, lb) ->
+  let moved := items_of h2 lb in
+  let h3 := set_items h2 lb [] in
+  let h4 := set_items h3 la (items_of h3 la ++ moved) in
+  let h5 := drop_val h4 (HRef lb d2) in
+  repr h5 (HRef la d1) (VSeq (ckind c1) (its1 ++ its2) dv1) /\
+  Step h (handles (HRef l1 d1) ++ handles (HRef l2 d2)) G h5 (handles (HRef la d1)).
+Proof.
+  intros I Ha Hb Hc1 Hc2 MM1 MM2 moved h3 h4 h5. rewrite !handles_ref in *.
+  (* make_mut a *)
+  assert (Ia : Inv h ((l1 :: handles_opt d1 ++ l2 :: handles_opt d2) ++ G)) by (eapply Inv_equiv; [|exact I]; occ_tac).
+  destruct (make_mut_facts h _ G l1 d1 _ h1 la Ia Ha MM1) as [c1x [c1' [Hc1x [Hc1' [K1 [I1 [C1 [Inv1 [S1 [Ha1 B1]]]]]]]]]].
+  rewrite Hc1 in Hc1x. inversion Hc1x; subst c1x. clear Hc1x.
+  assert (Hb1 : repr h1 (HRef l2 d2) (VSeq (ckind c2) its2 dv2)) by (eapply repr_ext; eauto).
+  (* make_mut b *)
+  assert (Ib : Inv h1 ((l2 :: handles_opt d2) ++ la :: handles_opt d1 ++ G)) by (eapply Inv_equiv; [|exact Inv1]; occ_tac).
+  destruct (make_mut_facts h1 _ _ l2 d2 _ h2 lb Ib Hb1 MM2) as [c2x [c2' [Hc2x [Hc2' [K2 [I2 [C2 [Inv2 [S2 [Hb2 B2]]]]]]]]]].
+  assert (K2' : ckind c2' = ckind c2 /\ citems c2' = citems c2).
+  { destruct (B1 l2 c2 Hc2) as [cc [Hcc [Kcc Icc]]]. rewrite Hcc in Hc2x. inversion Hc2x; subst. split; congruence. }
+  destruct K2' as [K2' I2'].
+  assert (Ia2 : Inv h1 ((l2 :: handles_opt d2) ++ la :: (handles_opt d1 ++ G))) by exact Ib.
+  assert (Cla1 : cnt_of h1 la = 1) by (rewrite (cnt_of_cell _ _ _ Hc1'); auto).
+  destruct (still_unique h1 (l2 :: handles_opt d2) la (handles_opt d1 ++ G) h2 (lb :: handles_opt d2) S2 Ia2 Cla1)
+    as [Cla2 [Ula2 [Ula3 Ula4]]].
+  assert (Ha2 : repr h2 (HRef la d1) (VSeq (ckind c1) its1 dv1)) by (eapply repr_ext; eauto).
+  destruct (repr_ref_inv _ _ _ _ _ _ Ha2) as [ca2 [Hca2 [Kca2 [Hitsa2 Hda2]]]].
+  assert (Cca2 : cnt ca2 = 1) by (rewrite (cnt_of_cell _ _ _ Hca2) in Cla2; auto).
+  destruct (repr_ref_inv _ _ _ _ _ _ Hb2) as [cb2 [Hcb2 [Kcb2 [Hitsb2 Hdb2]]]].
+  rewrite Hc2' in Hcb2. inversion Hcb2; subst cb2. clear Hcb2.
+  assert (Nab : la <> lb).
+  { intro; subst lb. rewrite occ_cons_eq in Ula3. discriminate. }
+  (* empty b's cell: its items are now held by the operation *)
+  assert (Em : moved = citems c2') by (unfold moved; apply items_of_eq; auto).
+  assert (Inv2' : Inv h2 ((lb :: handles_opt d2 ++ la :: handles_opt d1) ++ G)).
+  { eapply Inv_equiv; [|exact Inv2]. occ_tac. }
+  destruct (inplace_update h2 lb c2' (handles_opt d2 ++ la :: handles_opt d1)
+              (handles_items moved ++ handles_opt d2 ++ la :: handles_opt d1) [] G Inv2' Hc2' C2)
+    as [S3 [Hc3 [T1 [T2 [T3 [N3 [U3 V3]]]]]]].
+  { intro x. rewrite Em. unfold handles_items at 3. simpl. occ_tac. }
+  fold h3 in S3, Hc3, T1, T2, T3.
+  assert (Hca3 : get_cell h3 la = Some ca2) by (unfold h3; rewrite get_cell_set_items_neq; auto).
+  assert (Ea3 : items_of h3 la = citems ca2) by (apply items_of_eq; auto).
+  (* extend a's cell *)
+  assert (Inv3 : Inv h3 ((la :: handles_opt d1 ++ lb :: handles_opt d2 ++ handles_items moved) ++ G)).
+  { eapply Inv_equiv; [|apply S3]. occ_tac. }
+  destruct (inplace_update h3 la ca2 (handles_opt d1 ++ lb :: handles_opt d2 ++ handles_items moved)
+              (handles_opt d1 ++ lb :: handles_opt d2) (citems ca2 ++ moved) G Inv3 Hca3 Cca2)
+    as [S4 [Hc4 [T1' [T2' [T3' [N4 [U4 V4]]]]]]].
+  { intro x. rewrite handles_items_app. occ_tac. }
+  unfold h5, h4. clear h5 h4. rewrite Ea3.
+  set (h4' := set_items h3 la (citems ca2 ++ moved)) in *.
+  assert (Nd1 : ~ In la (handles_opt d1)).
+  { apply occ_notIn. apply occ_zero_app in U4. tauto. }
+  assert (Nmv : ~ In la (handles_items moved)).
+  { apply occ_notIn. apply occ_zero_app in U4. destruct U4 as [_ U4]. rewrite occ_cons_neq in U4; auto.
+    apply occ_zero_app in U4. tauto. }
+  assert (Nlb_a : ~ In lb (handles_items (citems ca2))).
+  { intro Hin. assert (In lb (handles_heap h2)) by (eapply In_handles_heap; eauto).
+    destruct (owned_unique _ _ _ _ _ Inv2' Hc2' C2) as [_ [_ W]]. apply occ_notIn in W. auto. }
+  assert (Nlb_d1 : ~ In lb (handles_opt d1)).
+  { apply occ_notIn. apply occ_zero_app in U3. destruct U3 as [_ U3]. rewrite occ_cons_neq in U3; auto. }
+  assert (Hr4 : repr h4' (HRef la d1) (VSeq (ckind c1) (its1 ++ its2) dv1)).
+  { rewrite Kca2. change (ckind ca2) with (ckind (mkcell 1 (ckind ca2) (citems ca2 ++ moved))).
+    apply R_ref; [auto| |].
+    - simpl. apply repr_items_app.
+      + apply T2'; auto; apply T2; auto.
+      + apply T2'; auto; rewrite Em; apply T2; auto; rewrite <- Em; auto.
+    - apply T3'; auto; apply T3; auto. }
+  (* release b's (now empty) cell *)
+  assert (Inv4 : Inv h4' ((handles (HRef lb d2) ++ la :: handles_opt d1) ++ G)).
+  { rewrite handles_ref. eapply Inv_equiv; [|apply S4]. occ_tac. }
+  destruct (drop_val_keep h4' (HRef lb d2) (la :: handles_opt d1) G Inv4) as [S5 K5].
+  rewrite handles_ref in S5.
+  split.
+  - apply K5; auto. rewrite handles_ref. apply incl_appl, incl_refl.
+  - eapply Step_trans; [eapply Step_equiv; [| |exact S1]|]. apply in_occ_equiv; occ_tac. intro; reflexivity.
+    assert (S2' : Step h1 (l2 :: handles_opt d2) ((la :: handles_opt d1) ++ G) h2 (lb :: handles_opt d2)) by exact S2.
+    apply Step_frame in S2'.
+    eapply Step_trans; [eapply Step_equiv; [| |exact S2']|]. apply in_occ_equiv; occ_tac. intro; reflexivity.
+    eapply Step_trans; [eapply Step_equiv; [| |exact S3]|]. apply in_occ_equiv; occ_tac. intro; reflexivity.
+    eapply Step_trans; [eapply Step_equiv; [| |exact S4]|]. apply in_occ_equiv; occ_tac. intro; reflexivity.
+    eapply Step_equiv; [| |exact S5]. apply in_occ_equiv; occ_tac. occ_tac.
+Qed.
+
+Lemma bop_concat_ok h a b ta tb G h' r :
+  Inv h ((handles a ++ handles b) ++ G) -> repr h a ta -> repr h b tb ->
+  m_bop BConcat h a b = (h', r) -> bop_post h a b G (bop_apply BConcat ta tb) h' r.
+Proof.
+  intros I Ha Hb E. unfold m_bop in E.
+  assert (NOK : (h', r) = (drop2 h a b, None) -> bop_apply BConcat ta tb = None ->
+                bop_post h a b G (bop_apply BConcat ta tb) h' r).
+  { intros E1 E2. inversion E1; subst. rewrite E2. apply drop2_ok; auto. }
+  destruct (kind_of h a) as [ka|] eqn:KA.
+  2: { apply NOK; [symmetry; exact E|]. pose proof (kind_of_none _ _ _ Ha KA). destruct ta; auto. exfalso. eapply H; eauto. }
+  destruct (kind_of h b) as [kb|] eqn:KB.
+  2: { apply NOK; [symmetry; exact E|]. pose proof (kind_of_none _ _ _ Hb KB).
+       destruct ta as [| |k1 x1 d1|]; auto. destruct tb as [| |k2 x2 d2|]; try (destruct k1; reflexivity). exfalso. eapply H; eauto. }
+  destruct (kind_of_repr _ _ _ _ Ha KA) as [l1 [d1 [c1 [its1 [dv1 [Ea [Hc1 [Kc1 [Et1 [Hits1 Hd1]]]]]]]]]].
+  destruct (kind_of_repr _ _ _ _ Hb KB) as [l2 [d2 [c2 [its2 [dv2 [Eb [Hc2 [Kc2 [Et2 [Hits2 Hd2]]]]]]]]]].
+  subst a b ta tb. simpl ref_loc in E. simpl ref_dflt in E.
+  destruct (kind_eqb ka kb && negb (kind_eqb ka KDict) && negb (kind_eqb ka KStr)) eqn:C.
+  2: { apply NOK; [symmetry; exact E|]. destruct ka; destruct kb; simpl in C; try discriminate; reflexivity. }
+  destruct (make_mut h l1) as [h1 la] eqn:MM1. destruct (make_mut h1 l2) as [h2 lb] eqn:MM2.
+  inversion E; subst; clear E.
+  destruct (concat_ok h l1 d1 c1 its1 dv1 l2 d2 c2 its2 dv2 G h1 la h2 lb I Ha Hb Hc1 Hc2 MM1 MM2) as [Hr5 S5].
+  assert (bop_apply BConcat (VSeq (ckind c1) its1 dv1) (VSeq (ckind c2) its2 dv2) = Some (VSeq (ckind c1) (its1 ++ its2) dv1)).
+  { destruct (ckind c1); destruct (ckind c2); simpl in C; try discriminate; reflexivity. }
+  unfold bop_post. rewrite H. split; auto.
+Qed.
+
+Lemma make_mut_unique h l c : get_cell h l = Some c -> cnt c = 1 -> make_mut h l = (h, l).
+Proof. intros Hc C. unfold make_mut. rewrite Hc, C. reflexivity. Qed.
+
+Lemma hbytes_repr h es ts : repr_items h es ts -> hbytes_of_items es = bytes_of_items ts.
+Proof.
+  induction 1; simpl; auto. destruct e; inversion H; subst; auto. rewrite IHrepr_items. reflexivity.
+Qed.
+
+Lemma hkey_repr h v t : repr h v t -> hkey_of_val h v = key_of_val t.
+Proof.
+  intro Hr. destruct v as [| z | l d | sid fs]; inversion Hr; subst; simpl; auto.
+  match goal with H : get_cell _ _ = Some _ |- _ => rewrite H end.
+  destruct (ckind c); auto. erewrite hbytes_repr; eauto.
+Qed.
+
+(* HashMap::insert into a uniquely owned dict cell *)
+Lemma m_put_key_ok h l d c its dv k v tv G :
+  Inv h ((l :: handles_opt d ++ handles v) ++ G) ->
+  repr h (HRef l d) (VSeq (ckind c) its dv) -> repr h v tv -> get_cell h l = Some c -> cnt c = 1 ->
+  repr (m_put_key h l k v) (HRef l d) (VSeq (ckind c) (put_key k tv its) dv) /\
+  Step h (l :: handles_opt d ++ handles v) G (m_put_key h l k v) (l :: handles_opt d).
+Proof.
+  intros I Hr Hv Hc C1.
+  destruct (repr_ref_inv _ _ _ _ _ _ Hr) as [c0 [Hc0 [_ [Hits Hd]]]].
+  rewrite Hc in Hc0. inversion Hc0; subst c0. clear Hc0.
+  pose proof (make_mut_unique h l c Hc C1) as MM.
+  unfold m_put_key, put_key. rewrite (items_of_eq _ _ _ Hc). rewrite <- (repr_items_find_key _ _ _ k Hits).
+  destruct (find_key k (citems c)) as [n|] eqn:FK.
+  - destruct (nth_item n (citems c)) as [old|] eqn:No.
+    + apply (replace_item_ok h l d c its dv n old v tv G h l I Hr Hv Hc No MM).
+    + exfalso. clear - FK No. revert n FK No. induction (citems c) as [|[k0 x] tl IHl]; intros n FK No; simpl in FK.
+      * discriminate.
+      * destruct (key_eqb k k0). inversion FK; subst. discriminate.
+        destruct (find_key k tl) eqn:F2; [|discriminate]. inversion FK; subst. unfold nth_item in *. simpl in No.
+        eapply IHl; eauto.
+  - apply (add_item_ok h l d c its dv k v tv G h l I Hr Hv Hc MM).
+Qed.
+
+Lemma bop_addkey_ok h a b ta tb G h' r :
+  Inv h ((handles a ++ handles b) ++ G) -> repr h a ta -> repr h b tb ->
+  m_bop BAddKey h a b = (h', r) -> bop_post h a b G (bop_apply BAddKey ta tb) h' r.
+Proof.
+  intros I Ha Hb E. unfold m_bop in E.
+  assert (NOK : (h', r) = (drop2 h a b, None) -> bop_apply BAddKey ta tb = None ->
+                bop_post h a b G (bop_apply BAddKey ta tb) h' r).
+  { intros E1 E2. inversion E1; subst. rewrite E2. apply drop2_ok; auto. }
+  destruct (kind_of h a) as [ka|] eqn:KA.
+  2: { apply NOK; [symmetry; exact E|]. pose proof (kind_of_none _ _ _ Ha KA). destruct ta; auto. exfalso. eapply H; eauto. }
+  destruct (kind_of_repr _ _ _ _ Ha KA) as [l [d [c [its [dv [Ea [Hc [Kc [Et [Hits Hd]]]]]]]]]]. subst a ta.
+  simpl ref_loc in E. simpl ref_dflt in E.
+  destruct ka; try (apply NOK; [symmetry; exact E | reflexivity]).
+  destruct (make_mut h l) as [h1 l'] eqn:MM.
+  rewrite !handles_ref in I.
+  assert (I' : Inv h ((l :: handles_opt d) ++ handles b ++ G)) by (eapply Inv_equiv; [|exact I]; occ_tac).
+  rewrite <- Kc in Ha.
+  destruct (make_mut_facts h _ _ l d _ h1 l' I' Ha MM) as [c0 [c1 [Hc0 [Hc1 [K1 [I1 [C1 [Inv1 [S1 [Ha1 B1]]]]]]]]]].
+  assert (Hb1 : repr h1 b tb) by (eapply repr_ext; eauto).
+  rewrite (hkey_repr _ _ _ Hb1) in E.
+  assert (Kc1 : ckind c1 = ckind c) by congruence.
+  simpl. destruct (key_of_val tb) as [k|] eqn:KV.
+  - inversion E; subst; clear E.
+    assert (I2 : Inv h1 ((l' :: handles_opt d ++ handles HNull) ++ handles b ++ G)).
+    { rewrite handles_null. eapply Inv_equiv; [|exact Inv1]. occ_tac. }
+    rewrite <- Kc1 in Ha1.
+    destruct (m_put_key_ok h1 l' d c1 its dv k HNull VNull (handles b ++ G) I2 Ha1 (R_null _) Hc1 C1) as [Hr2 S2].
+    set (h2 := m_put_key h1 l' k HNull) in *. rewrite handles_null in S2.
+    assert (I3 : Inv h2 ((handles b ++ l' :: handles_opt d) ++ G)).
+    { eapply Inv_equiv; [|apply S2]. occ_tac. }
+    destruct (drop_val_keep h2 b (l' :: handles_opt d) G I3) as [S3 K3].
+    split.
+    + rewrite Kc1, Kc in Hr2. apply K3; auto. rewrite handles_ref. apply incl_appl, incl_refl.
+    + rewrite !handles_ref. apply Step_frame in S1. apply Step_frame in S2.
+      eapply Step_trans; [eapply Step_equiv; [| |exact S1]|]. apply in_occ_equiv; occ_tac. intro; reflexivity.
+      eapply Step_trans; [eapply Step_equiv; [| |exact S2]|]. apply in_occ_equiv; occ_tac. intro; reflexivity.
+      eapply Step_equiv; [| |exact S3]. apply in_occ_equiv; occ_tac. occ_tac.
+  - inversion E; subst; clear E.
+    assert (Inv1' : Inv h1 ((handles (HRef l' d) ++ handles b) ++ G)).
+    { rewrite handles_ref. eapply Inv_equiv; [|exact Inv1]. occ_tac. }
+    pose proof (drop2_ok h1 (HRef l' d) b G Inv1') as S2. rewrite handles_ref in S2.
+    apply Step_frame in S1. unfold bop_post. rewrite !handles_ref.
+    eapply Step_trans; [eapply Step_equiv; [| |exact S1]|exact S2]. apply in_occ_equiv; occ_tac. occ_tac.
+Qed.
+
+Lemma incl_cons_app (x : loc) a b : incl (x :: a) (x :: a ++ b).
+Proof. intros y Hy. simpl in *. destruct Hy; [left; auto | right; apply in_or_app; auto]. Qed.
+
+Lemma bop_delkey_ok h a b ta tb G h' r :
+  Inv h ((handles a ++ handles b) ++ G) -> repr h a ta -> repr h b tb ->
+  m_bop BDelKey h a b = (h', r) -> bop_post h a b G (bop_apply BDelKey ta tb) h' r.
+Proof.
+  intros I Ha Hb E. unfold m_bop in E.
+  assert (NOK : (h', r) = (drop2 h a b, None) -> bop_apply BDelKey ta tb = None ->
+                bop_post h a b G (bop_apply BDelKey ta tb) h' r).
+  { intros E1 E2. inversion E1; subst. rewrite E2. apply drop2_ok; auto. }
+  destruct (kind_of h a) as [ka|] eqn:KA.
+  2: { apply NOK; [symmetry; exact E|]. pose proof (kind_of_none _ _ _ Ha KA). destruct ta; auto. exfalso. eapply H; eauto. }
+  destruct (kind_of_repr _ _ _ _ Ha KA) as [l [d [c [its [dv [Ea [Hc [Kc [Et [Hits Hd]]]]]]]]]]. subst a ta.
+  simpl ref_loc in E. simpl ref_dflt in E.
+  destruct ka; try (apply NOK; [symmetry; exact E | reflexivity]).
+  destruct (make_mut h l) as [h1 l'] eqn:MM.
+  rewrite !handles_ref in I.
+  assert (I' : Inv h ((l :: handles_opt d) ++ handles b ++ G)) by (eapply Inv_equiv; [|exact I]; occ_tac).
+  rewrite <- Kc in Ha.
+  destruct (make_mut_facts h _ _ l d _ h1 l' I' Ha MM) as [c0 [c1 [Hc0 [Hc1 [K1 [I1 [C1 [Inv1 [S1 [Ha1 B1]]]]]]]]]].
+  assert (Hb1 : repr h1 b tb) by (eapply repr_ext; eauto).
+  rewrite (hkey_repr _ _ _ Hb1) in E.
+  assert (Kc1 : ckind c1 = ckind c) by congruence.
+  apply Step_frame in S1.
+  assert (S1' : Step h ((l :: handles_opt d) ++ handles b) G h1 (handles (HRef l' d) ++ handles b)).
+  { rewrite handles_ref. exact S1. }
+  assert (Inv1' : Inv h1 ((handles (HRef l' d) ++ handles b) ++ G)) by apply S1'.
+  simpl. destruct (key_of_val tb) as [k|] eqn:KV.
+  2: { inversion E; subst; clear E. pose proof (drop2_ok h1 (HRef l' d) b G Inv1') as S2.
+       unfold bop_post. rewrite !handles_ref. eapply Step_trans; [|exact S2]. rewrite handles_ref in S1'. exact S1'. }
+  destruct (repr_ref_inv _ _ _ _ _ _ Ha1) as [c1' [Hc1' [_ [Hits1 Hd1]]]].
+  rewrite Hc1 in Hc1'. inversion Hc1'; subst c1'. clear Hc1'.
+  rewrite (items_of_eq _ _ _ Hc1) in E. unfold del_key.
+  rewrite <- (repr_items_find_key _ _ _ k Hits1).
+  assert (KEEP : forall hh, (hh, r) = (drop_val h1 b, Some (HRef l' d)) -> h' = hh ->
+                 bop_post h (HRef l d) b G (Some (VSeq KDict its dv)) h' r).
+  { intros hh E1 E2. inversion E1; subst. 
+    assert (I2 : Inv h1 ((handles b ++ l' :: handles_opt d) ++ G)).
+    { rewrite handles_ref in Inv1'. eapply Inv_equiv; [|exact Inv1']. occ_tac. }
+    destruct (drop_val_keep h1 b (l' :: handles_opt d) G I2) as [S3 K3].
+    split.
+    - rewrite <- Kc. apply K3; auto. rewrite handles_ref. apply incl_appl, incl_refl.
+    - rewrite !handles_ref. rewrite handles_ref in S1'.
+      eapply Step_trans; [exact S1'|]. eapply Step_equiv; [| |exact S3]. apply in_occ_equiv; occ_tac. occ_tac. }
+  destruct (find_key k (citems c1)) as [n|] eqn:FK.
+  2: { eapply KEEP; [symmetry; exact E | reflexivity]. }
+  destruct (nth_item n (citems c1)) as [old|] eqn:No.
+  2: { exfalso. clear - FK No. revert n FK No. induction (citems c1) as [|[k0 x] tl IHl]; intros n FK No; simpl in FK.
+       - discriminate.
+       - destruct (key_eqb k k0). inversion FK; subst. discriminate.
+         destruct (find_key k tl) eqn:F2; [|discriminate]. inversion FK; subst. unfold nth_item in *. simpl in No.
+         eapply IHl; eauto. }
+  inversion E; subst; clear E.
+  pose proof (make_mut_unique h1 l' c1 Hc1 C1) as MM1.
+  assert (I2 : Inv h1 ((l' :: handles_opt d) ++ handles b ++ G)).
+  { rewrite handles_ref in Inv1'. eapply Inv_equiv; [|exact Inv1']. occ_tac. }
+  rewrite <- Kc1 in Ha1.
+  destruct (extract_ok h1 l' d c1 its dv (handles b ++ G) h1 l' (del_nth n (citems c1)) (del_nth n its) (handles old) I2 Ha1 Hc1 MM1)
+    as [Hr2 [S2 [T1 _]]].
+  { intro x. apply occ_items_del_nth. auto. }
+  { intros hh Hh. apply repr_items_del_nth; auto. }
+  set (h2 := set_items h1 l' (del_nth n (citems c1))) in *.
+  assert (I3 : Inv h2 ((handles old ++ handles b) ++ l' :: handles_opt d ++ G)).
+  { eapply Inv_equiv; [|apply S2]. occ_tac. }
+  pose proof (drop2_ok h2 old b _ I3) as S3.
+  split.
+  - rewrite Kc1, Kc in Hr2. eapply (st_frame _ _ _ _ _ S3); eauto. rewrite handles_ref. apply incl_cons_app.
+  - rewrite !handles_ref. rewrite handles_ref in S1'.
+    apply Step_frame in S2.
+    assert (S3' : Step h2 (handles old ++ handles b) ((l' :: handles_opt d) ++ G) (drop2 h2 old b) []) by exact S3.
+    apply Step_frame in S3'.
+    eapply Step_trans; [exact S1'|].
+    eapply Step_trans; [eapply Step_equiv; [| |exact S2]|]. apply in_occ_equiv; occ_tac. intro; reflexivity.
+    eapply Step_equiv; [| |exact S3']. apply in_occ_equiv; occ_tac. occ_tac.
+Qed.
+
+Definition bfrag (f : bop) : bool :=
+  match f with BAppend | BConcat | BPlus | BAddKey | BDelKey => true | BUnion | BUpdate => false end.
+
+Lemma m_bop_ok f : bfrag f = true -> forall h a b ta tb G h' r,
+  Inv h ((handles a ++ handles b) ++ G) -> repr h a ta -> repr h b tb ->
+  m_bop f h a b = (h', r) -> bop_post h a b G (bop_apply f ta tb) h' r.
+Proof.
+  destruct f; simpl; intro H; try discriminate; intros.
+  - eapply bop_append_ok; eauto.
+  - eapply bop_concat_ok; eauto.
+  - eapply bop_plus_ok; eauto.
+  - eapply bop_addkey_ok; eauto.
+  - eapply bop_delkey_ok; eauto.
+Qed.
+
+(* ------------------------------------------------------------------ op-assign: drop_lhs, call, assign back *)
+Lemma m_opassign_ok p f : noslice p = true -> bfrag f = true ->
+  forall h cur t old told w tw G h' cur' ok,
+  Inv h ((handles cur ++ handles old ++ handles w) ++ G) ->
+  repr h cur t -> repr h old told -> repr h w tw -> v_get t p = Some told ->
+  m_opassign p f h cur old w = (h', cur', ok) ->
+  exists t', v_opassign p f tw t = (t', ok) /\ repr h' cur' t' /\
+             Step h (handles cur ++ handles old ++ handles w) G h' (handles cur').
+Proof.
+  intros NS BF h cur t old told w tw G h' cur' ok I Hc Ho Hw Hg E.
+  unfold m_opassign in E. unfold v_opassign. rewrite Hg.
+  destruct (m_set true p None h cur) as [[h1 cur1] ok1] eqn:E1.
+  assert (I0 : Inv h ((handles cur ++ handles_opt None) ++ (handles old ++ handles w) ++ G)).
+  { simpl. eapply Inv_equiv; [|exact I]. occ_tac. }
+  destruct (m_set_ok true p NS None None h cur t _ h1 cur1 ok1 I0 Hc (RO_none _) E1) as [t1 [Ev1 [Hr1 S1]]].
+  simpl handles_opt in S1. rewrite app_nil_r in S1.
+  rewrite Ev1.
+  assert (Ho1 : repr h1 old told).
+  { eapply (st_frame _ _ _ _ _ S1); eauto. apply incl_appl, incl_appl, incl_refl. }
+  assert (Hw1 : repr h1 w tw).
+  { eapply (st_frame _ _ _ _ _ S1); eauto. apply incl_appl, incl_appr, incl_refl. }
+  assert (S1' : Step h (handles cur ++ handles old ++ handles w) G h1 (handles cur1 ++ handles old ++ handles w)).
+  { apply Step_frame in S1. eapply Step_equiv; [| |exact S1]. apply in_occ_equiv; occ_tac. occ_tac. }
+  destruct ok1; simpl in E |- *.
+  - (* the slot is null now; call the operator *)
+    destruct (m_bop f h1 old w) as [h2 r] eqn:EB.
+    assert (I1 : Inv h1 ((handles old ++ handles w) ++ handles cur1 ++ G)).
+    { eapply Inv_equiv; [|apply S1']. occ_tac. }
+    pose proof (m_bop_ok f BF h1 old w told tw _ h2 r I1 Ho1 Hw1 EB) as HB.
+    unfold bop_post in HB.
+    destruct r as [res|]; destruct (bop_apply f told tw) as [tres|]; try contradiction.
+    + destruct HB as [Hres S2].
+      assert (Hc2 : repr h2 cur1 t1).
+      { eapply (st_frame _ _ _ _ _ S2); eauto. apply incl_appl, incl_refl. }
+      assert (I2 : Inv h2 ((handles cur1 ++ handles_opt (Some res)) ++ G)).
+      { simpl. eapply Inv_equiv; [|apply S2]. occ_tac. }
+      destruct (m_set_ok false p NS (Some res) (Some tres) h2 cur1 t1 G h' cur' ok I2 Hc2 (RO_some _ _ _ Hres) E)
+        as [t' [Ev2 [Hr' S3]]].
+      exists t'. split; auto. split; auto.
+      assert (S2' : Step h1 (handles old ++ handles w) (handles cur1 ++ G) h2 (handles res)) by exact S2.
+      apply Step_frame in S2'.
+      eapply Step_trans; [exact S1'|].
+      eapply Step_trans; [eapply Step_equiv; [| |exact S2']|]. apply in_occ_equiv; occ_tac. intro; reflexivity.
+      eapply Step_equiv; [| |exact S3]. apply in_occ_equiv; simpl; occ_tac. occ_tac.
+    + (* the operator raised: the slot stays null *)
+      inversion E; subst; clear E.
+      exists t1. split; auto. split.
+      * eapply (st_frame _ _ _ _ _ HB); eauto. apply incl_appl, incl_refl.
+      * assert (S2' : Step h1 (handles old ++ handles w) (handles cur' ++ G) h' []) by exact HB.
+        apply Step_frame in S2'. simpl in S2'.
+        eapply Step_trans; [exact S1'|].
+        eapply Step_equiv; [| |exact S2']. apply in_occ_equiv; occ_tac. occ_tac.
+  - inversion E; subst; clear E.
+    assert (I1 : Inv h1 ((handles old ++ handles w) ++ handles cur' ++ G)).
+    { eapply Inv_equiv; [|apply S1']. occ_tac. }
+    pose proof (drop2_ok h1 old w _ I1) as S2.
+    exists t1. split; auto. split.
+    + eapply (st_frame _ _ _ _ _ S2); eauto. apply incl_appl, incl_refl.
+    + assert (S2' : Step h1 (handles old ++ handles w) (handles cur' ++ G) (drop2 h1 old w) []) by exact S2.
+      apply Step_frame in S2'. simpl in S2'.
+      eapply Step_trans; [exact S1'|].
+      eapply Step_equiv; [| |exact S2']. apply in_occ_equiv; occ_tac. occ_tac.
+Qed.
+
+(* ------------------------------------------------------------------ a mutation form on one owned value (a closure parameter) *)
+Definition lfrag (m : lop) : bool :=
+  match m with
+  | LSet p _ => noslice p
+  | LOp p f _ => noslice p && bfrag f
+  | LPop _ | LRemove _ _ | LConsume _ => true
+  | LEvery _ _ => false
+  end.
+
+Lemma m_lop_ok m : lfrag m = true -> mod_spec (m_lop m) (lop_apply m).
+Proof.
+  destruct m as [p w | p w | p f w | p | p i | p]; simpl; intro FR; try discriminate;
+    try (apply m_lop_mod_ok; reflexivity).
+  - (* a[p] = w *)
+    intros h cur t G h' cur' r I Hr E. simpl in E.
+    destruct (alloc_val h w) as [h1 wv] eqn:EA.
+    destruct (m_set false p (Some wv) h1 cur) as [[h2 cur2] ok] eqn:ES. inversion E; subst; clear E.
+    destruct (alloc_val_ok w h (handles cur) G h1 wv I EA) as [Hw [S1 B1]].
+    assert (I1 : Inv h1 ((handles cur ++ handles_opt (Some wv)) ++ G)).
+    { simpl. eapply Inv_equiv; [|apply S1]. occ_tac. }
+    assert (Hr1 : repr h1 cur t) by (eapply repr_ext; eauto).
+    destruct (m_set_ok false p FR (Some wv) (Some w) h1 cur t G h' cur' ok I1 Hr1 (RO_some _ _ _ Hw) ES) as [t' [Ev [Hr' S2]]].
+    simpl. rewrite Ev. simpl. split; auto.
+    assert (S12 : Step h (handles cur) G h' (handles cur')).
+    { eapply Step_trans; [exact S1|]. eapply Step_equiv; [| |exact S2]. apply in_occ_equiv; simpl; occ_tac. intro; reflexivity. }
+    destruct ok; simpl.
+    + split; [constructor|]. rewrite handles_null. simpl. exact S12.
+    + exact S12.
+  - (* a[p] f= w *)
+    apply andb_prop in FR. destruct FR as [NS BF].
+    intros h cur t G h' cur' r I Hr E. simpl in E. simpl. unfold v_opassign.
+    destruct (m_read h cur p) as [h1 [old|]] eqn:ER.
+    2: { destruct (m_read_ok h cur t p (handles cur) G h1 None I) as [[Hg S1] K1]; auto.
+         { apply incl_appl, incl_refl. }
+         inversion E; subst. rewrite Hg. simpl. split; auto. apply K1; auto. apply incl_appl, incl_refl. }
+    destruct (m_read_ok h cur t p (handles cur) G h1 (Some old) I) as [[told [Hg [Hold S1]]] K1]; auto.
+    { apply incl_appl, incl_refl. }
+    assert (Hr1 : repr h1 cur t) by (apply K1; auto; apply incl_appl, incl_refl).
+    destruct (alloc_val h1 w) as [h2 wv] eqn:EA.
+    destruct (m_opassign p f h2 cur old wv) as [[h3 cur3] ok] eqn:EO. inversion E; subst; clear E.
+    assert (I1 : Inv h1 ((handles old ++ handles cur) ++ G)) by apply S1.
+    destruct (alloc_val_ok w h1 (handles old ++ handles cur) G h2 wv I1 EA) as [Hw [S2 B2]].
+    assert (I2 : Inv h2 ((handles cur ++ handles old ++ handles wv) ++ G)).
+    { eapply Inv_equiv; [|apply S2]. occ_tac. }
+    assert (Hr2 : repr h2 cur t) by (eapply repr_ext; eauto).
+    assert (Hold2 : repr h2 old told) by (eapply repr_ext; eauto).
+    destruct (m_opassign_ok p f NS BF h2 cur t old told wv w G h' cur' ok I2 Hr2 Hold2 Hw Hg EO) as [t' [Ev [Hr' S3]]].
+    unfold v_opassign in Ev. rewrite Hg in Ev. rewrite Hg.
+    assert (S123 : Step h (handles cur) G h' (handles cur')).
+    { eapply Step_trans; [exact S1|]. eapply Step_trans; [exact S2|].
+      eapply Step_equiv; [| |exact S3]. apply in_occ_equiv; occ_tac. intro; reflexivity. }
+    destruct (v_set true p None t) as [v1 ok1] eqn:EV1.
+    destruct ok1; simpl in Ev |- *.
+    + destruct (bop_apply f told w) as [rr|] eqn:EB.
+      * rewrite Ev. simpl. split; auto. destruct ok; simpl; auto. split; [constructor|]. rewrite handles_null. exact S123.
+      * inversion Ev; subst. simpl. split; auto.
+    + inversion Ev; subst. simpl. split; auto.
+Qed.
+
 (* ------------------------------------------------------------------ expressions *)
 Fixpoint evals (st : state) (es : list expr) : option (list val) :=
   match es with
@@ -1342,6 +2589,31 @@ Proof.
   { induction es; simpl; auto. rewrite IHes. reflexivity. }
   rewrite E. reflexivity.
 Qed.
+
+Lemma eval_EUpd_eq st e k e2 :
+  eval st (EUpd e k e2) =
+  match eval st e with
+  | Some v => match eval st e2 with
+              | Some w => let (v', ok) := v_set false [k] (Some w) v in if ok then Some v' else None
+              | None => None
+              end
+  | None => None
+  end.
+Proof. reflexivity. Qed.
+
+Lemma m_eval_EUpd_eq rs h e k e2 :
+  m_eval rs h (EUpd e k e2) =
+  match m_eval rs h e with
+  | (h1, Some v) =>
+    match m_eval rs h1 e2 with
+    | (h2, Some w) =>
+      let '(h3, v', ok) := m_set false [k] (Some w) h2 v in
+      if ok then (h3, Some v') else (drop_val h3 v', None)
+    | (h2, None) => (drop_val h2 v, None)
+    end
+  | (h1, None) => (h1, None)
+  end.
+Proof. reflexivity. Qed.
 
 Fixpoint m_evals (rs : list hval) (h : heap) (l : list expr) : heap * option (list (key * hval)) :=
   match l with
@@ -1387,7 +2659,8 @@ Fixpoint efrag (e : expr) : bool :=
   match e with
   | ELit _ | ERead _ _ | EGet _ => true
   | EList es => (fix go (l : list expr) : bool := match l with [] => true | x :: tl => efrag x && go tl end) es
-  | EUpd _ _ _ | ECall _ _ => false
+  | EUpd e k e2 => efrag e && negb (is_slice k) && efrag e2
+  | ECall m e => lfrag m && efrag e
   end.
 
 Definition eval_post (rs : list hval) (h : heap) (F : list loc) (st : state) (e : expr) (h' : heap) (r : option hval) : Prop :=
@@ -1424,7 +2697,7 @@ Lemma m_eval_ok e : efrag e = true -> forall rs h F st h' r,
   Inv h (handles_list rs ++ F) -> repr_list h rs st -> m_eval rs h e = (h', r) ->
   eval_post rs h F st e h' r.
 Proof.
-  induction e using expr_ind'; intros FR rs h F st h' r I Hrs E; unfold eval_post.
+  induction e as [v | x p | x | es H | e1 k e2 IHe1 IHe2 | m e IHe] using expr_ind'; intros FR rs h F st h' r I Hrs E; unfold eval_post.
   - (* literal *)
     simpl in E. destruct (alloc_val h v) as [h1 w] eqn:EA. inversion E; subst.
     destruct (alloc_val_ok v h (handles_list rs) F h' w I EA) as [Hw [S B]].
@@ -1505,73 +2778,155 @@ Proof.
       * intros w t Iw Hw. eapply repr_ext; [exact B2|]. apply K1; auto.
     + destruct (LIST es H FR h F h1 None I Hrs E1) as [[Evs S1] K1].
       inversion E; subst; clear E. rewrite Evs. split; auto.
-  - simpl in FR. discriminate.
-  - simpl in FR. discriminate.
+  - (* e{k = e2} *)
+    simpl in FR. apply andb_prop in FR. destruct FR as [FR F2]. apply andb_prop in FR. destruct FR as [F1 NK].
+    rewrite m_eval_EUpd_eq in E. rewrite eval_EUpd_eq.
+    destruct (m_eval rs h e1) as [h1 [v|]] eqn:E1.
+    2: { destruct (IHe1 F1 rs h F st h1 None I Hrs E1) as [[Ev S1] K1]. inversion E; subst. rewrite Ev. split; auto. }
+    destruct (IHe1 F1 rs h F st h1 (Some v) I Hrs E1) as [[tv [Ev [Hv S1]]] K1]. rewrite Ev.
+    assert (Hrs1 : repr_list h1 rs st).
+    { apply repr_list_as_inst. apply K1. rewrite handles_inst. apply incl_appl, incl_refl. apply repr_list_as_inst; auto. }
+    assert (I1 : Inv h1 (handles_list rs ++ handles v ++ F)).
+    { eapply Inv_equiv; [|apply S1]. occ_tac. }
+    destruct (m_eval rs h1 e2) as [h2 [w|]] eqn:E2.
+    2: { destruct (IHe2 F2 rs h1 (handles v ++ F) st h2 None I1 Hrs1 E2) as [[Ev2 S2] K2].
+         inversion E; subst; clear E. rewrite Ev2.
+         assert (I2 : Inv h2 ((handles v ++ handles_list rs) ++ F)).
+         { eapply Inv_equiv; [|apply S2]. occ_tac. }
+         destruct (drop_val_keep h2 v (handles_list rs) F I2) as [S3 K3].
+         split.
+         - split; auto. apply Step_frame in S2.
+           eapply Step_trans; [exact S1|]. eapply Step_trans; [|exact S3].
+           eapply Step_equiv; [| |exact S2]. apply in_occ_equiv; occ_tac. occ_tac.
+         - intros w0 t0 Iw Hw0. apply K3; auto. apply K2. { intros x Hx. apply Iw in Hx. revert Hx. in_tac. } apply K1; auto. }
+    destruct (IHe2 F2 rs h1 (handles v ++ F) st h2 (Some w) I1 Hrs1 E2) as [[tw [Ev2 [Hw S2]]] K2]. rewrite Ev2.
+    assert (Hv2 : repr h2 v tv) by (apply K2; auto; apply incl_appr, incl_appl, incl_refl).
+    destruct (m_set false [k] (Some w) h2 v) as [[h3 v'] ok] eqn:ES.
+    assert (NS : noslice [k] = true) by (simpl; rewrite NK; reflexivity).
+    assert (I2 : Inv h2 ((handles v ++ handles_opt (Some w)) ++ handles_list rs ++ F)).
+    { simpl. eapply Inv_equiv; [|apply S2]. occ_tac. }
+    destruct (m_set_ok false [k] NS (Some w) (Some tw) h2 v tv _ h3 v' ok I2 Hv2 (RO_some _ _ _ Hw) ES) as [t' [Ev3 [Hr' S3]]].
+    rewrite Ev3.
+    assert (S123 : Step h (handles_list rs) F h3 (handles v' ++ handles_list rs)).
+    { apply Step_frame in S2. apply Step_frame in S3.
+      eapply Step_trans; [exact S1|].
+      eapply Step_trans; [eapply Step_equiv; [| |exact S2]|]. apply in_occ_equiv; occ_tac. intro; reflexivity.
+      eapply Step_equiv; [| |exact S3]. apply in_occ_equiv; simpl; occ_tac. occ_tac. }
+    assert (K123 : forall w0 t0, incl (handles w0) (handles_list rs ++ F) -> repr h w0 t0 -> repr h3 w0 t0).
+    { intros w0 t0 Iw Hw0. eapply (st_frame _ _ _ _ _ S3); eauto.
+      apply K2. { intros x Hx. apply Iw in Hx. revert Hx. in_tac. } apply K1; auto. }
+    destruct ok.
+    + inversion E; subst; clear E. split; auto. exists t'. split; auto.
+    + inversion E; subst; clear E.
+      assert (I3 : Inv h3 ((handles v' ++ handles_list rs) ++ F)) by apply S123.
+      destruct (drop_val_keep h3 v' (handles_list rs) F I3) as [S4 K4].
+      split.
+      * split; auto. eapply Step_trans; eauto.
+      * intros w0 t0 Iw Hw0. apply K4; auto.
+  - (* (\a -> (m on a; a))(e) *)
+    simpl in FR. apply andb_prop in FR. destruct FR as [FM FE].
+    simpl in E. simpl.
+    destruct (m_eval rs h e) as [h1 [v|]] eqn:E1.
+    2: { destruct (IHe FE rs h F st h1 None I Hrs E1) as [[Ev S1] K1]. inversion E; subst. rewrite Ev. split; auto. }
+    destruct (IHe FE rs h F st h1 (Some v) I Hrs E1) as [[tv [Ev [Hv S1]]] K1]. rewrite Ev.
+    destruct (m_lop m h1 v) as [[h2 a'] r0] eqn:EL.
+    assert (I1 : Inv h1 (handles v ++ handles_list rs ++ F)).
+    { eapply Inv_equiv; [|apply S1]. occ_tac. }
+    pose proof (m_lop_ok m FM h1 v tv _ h2 a' r0 I1 Hv EL) as [Hr' Hres].
+    destruct (lop_apply m tv) as [t' tr] eqn:EV. simpl in Hr', Hres.
+    destruct r0 as [res|]; destruct tr as [tres|]; try contradiction.
+    + destruct Hres as [Hrres S2]. inversion E; subst; clear E.
+      assert (I2 : Inv h2 ((handles res ++ handles a') ++ handles_list rs ++ F)) by apply S2.
+      destruct (drop_val_keep h2 res (handles a') (handles_list rs ++ F) I2) as [S3 K3].
+      split.
+      * exists t'. split; auto. split; [apply K3; auto; apply incl_appl, incl_refl|].
+        apply Step_frame in S2. apply Step_frame in S3.
+        eapply Step_trans; [exact S1|].
+        eapply Step_trans; [eapply Step_equiv; [| |exact S2]|]. apply in_occ_equiv; occ_tac. intro; reflexivity.
+        eapply Step_equiv; [| |exact S3]. apply in_occ_equiv; occ_tac. occ_tac.
+      * intros w0 t0 Iw Hw0. apply K3. { apply incl_appr. auto. }
+        apply (st_frame _ _ _ _ _ S2); [exact Iw | apply K1; auto].
+    + inversion E; subst; clear E.
+      assert (I2 : Inv h2 ((handles a' ++ []) ++ handles_list rs ++ F)) by (rewrite app_nil_r; apply Hres).
+      destruct (drop_val_keep h2 a' [] (handles_list rs ++ F) I2) as [S3 K3].
+      split.
+      * split; auto.
+        assert (S2' : Step h1 (handles v) (handles_list rs ++ F) h2 (handles a')) by exact Hres.
+        apply Step_frame in S2'. apply Step_frame in S3. simpl in S3.
+        eapply Step_trans; [exact S1|].
+        eapply Step_trans; [eapply Step_equiv; [| |exact S2']|]. apply in_occ_equiv; occ_tac. intro; reflexivity.
+        eapply Step_equiv; [| |exact S3]. apply in_occ_equiv; occ_tac. occ_tac.
+      * intros w0 t0 Iw Hw0. apply K3. { simpl. auto. }
+        apply (st_frame _ _ _ _ _ Hres); [exact Iw | apply K1; auto].
 Qed.
 
-(* ------------------------------------------------------------------ statements *)
-Definition StInv (st : mstate) : Prop := Inv (mheap st) (handles_list (roots st)).
-Definition Sim (st : mstate) (sg : state) : Prop := repr_list (mheap st) (roots st) sg.
-
-Lemma repr_list_as_inst h rs sg : repr_list h rs sg <-> repr h (HInst 0 rs) (VInst 0 sg).
-Proof. split; intro H; [constructor; auto | inversion H; auto]. Qed.
-
-(* take the content of variable x out of the roots: the rest of the roots is the frame *)
-Lemma roots_split x rs cur :
-  nth_error rs x = Some cur ->
-  forall l, occ l (handles_list rs) = occ l (handles cur) + occ l (handles_list (set_root rs x HNull)).
+Lemma exec_op_ok x p f e : noslice p = true -> bfrag f = true -> efrag e = true ->
+  forall h rs sg st' ok,
+  Inv h (handles_list rs) -> repr_list h rs sg ->
+  m_exec_s (mkst h rs) (SOp x p f e) = (st', ok) ->
+  exists sg', exec_s sg (SOp x p f e) = (sg', ok) /\ StInv st' /\ Sim st' sg'.
 Proof.
-  intros Hx l. pose proof (occ_list_set_field l rs x HNull cur Hx). rewrite handles_null in H.
-  unfold set_root. revert H. occ_tac.
-Qed.
-
-Lemma roots_put x rs cur cur' :
-  nth_error rs x = Some cur ->
-  forall l, occ l (handles_list (set_root rs x cur')) = occ l (handles cur') + occ l (handles_list (set_root rs x HNull)).
-Proof.
-  intros Hx l. pose proof (occ_list_set_field l rs x HNull cur Hx). pose proof (occ_list_set_field l rs x cur' cur Hx).
-  rewrite handles_null in H. unfold set_root. revert H H0. occ_tac.
-Qed.
-
-Lemma m_assign_to_ok h rs sg every x p w tw st' ok :
-  noslice p = true ->
-  Inv h (handles w ++ handles_list rs) -> repr_list h rs sg -> repr h w tw ->
-  m_assign_to (mkst h rs) every x p w = (st', ok) ->
-  exists sg', assign_to sg every x p tw = (sg', ok) /\ StInv st' /\ Sim st' sg'.
-Proof.
-  intros NS I Hrs Hw E. unfold m_assign_to in E. simpl in E. unfold assign_to.
+  intros NS BF FE h rs sg st' ok I Hrs E. simpl in E. simpl.
+  assert (KEEPST : forall hh Rres, Step h (handles_list rs) [] hh (Rres ++ handles_list rs) -> Rres = [] ->
+                   (forall w t, incl (handles w) (handles_list rs ++ []) -> repr h w t -> repr hh w t) ->
+                   StInv (mkst hh rs) /\ Sim (mkst hh rs) sg).
+  { intros hh Rres S ER K. subst Rres. split.
+    - unfold StInv. simpl. pose proof (st_inv _ _ _ _ _ S) as I1. simpl in I1. rewrite app_nil_r in I1. auto.
+    - unfold Sim. simpl. apply repr_list_as_inst. apply K.
+      rewrite handles_inst. apply incl_appl, incl_refl. apply repr_list_as_inst; auto. }
   destruct (nth_error rs x) as [cur|] eqn:Ex.
-  - destruct (repr_list_nth _ _ _ _ _ Hrs Ex) as [tcur [Htc Hcur]]. rewrite Htc.
-    destruct (m_set every p (Some w) h cur) as [[h1 cur'] ok1] eqn:ES. inversion E; subst; clear E.
-    set (others := handles_list (set_root rs x HNull)).
-    assert (I0 : Inv h ((handles cur ++ handles_opt (Some w)) ++ others)).
-    { eapply Inv_equiv; [|exact I]. intro l. pose proof (roots_split x rs cur Ex l). simpl. fold others in H. revert H. occ_tac. }
-    destruct (m_set_ok every p NS (Some w) (Some tw) h cur tcur others h1 cur' ok I0 Hcur (RO_some _ _ _ Hw) ES)
-      as [t' [Ev [Hr' S]]].
-    rewrite Ev. eexists; split; [reflexivity|]. split.
-    + unfold StInv. simpl. eapply Inv_equiv; [|apply (st_inv _ _ _ _ _ S)].
-      intro l. pose proof (roots_put x rs cur cur' Ex l). fold others in H. revert H. occ_tac.
-    + unfold Sim. simpl.
-      assert (Ho : repr h (HInst 0 (set_root rs x HNull)) (VInst 0 (set_field x VNull sg))).
-      { constructor. apply repr_list_set_field; auto. constructor. }
-      apply (st_frame _ _ _ _ _ S) in Ho; [|rewrite handles_inst; apply incl_refl].
-      inversion Ho; subst.
-      match goal with H : repr_list h1 _ _ |- _ => pose proof (repr_list_set_field _ _ _ x _ _ H Hr') as Hx end.
-      unfold set_root in Hx. rewrite hset_field_twice, set_field_twice in Hx. exact Hx.
-  - inversion E; subst; clear E. rewrite (repr_list_nth_none _ _ _ _ Hrs Ex).
-    destruct (drop_val_keep h w (handles_list rs) [] ) as [S K].
-    { rewrite app_nil_r. auto. }
-    eexists; split; [reflexivity|]. split.
-    + unfold StInv. simpl. pose proof (st_inv _ _ _ _ _ S) as I1. rewrite app_nil_r in I1. auto.
-    + unfold Sim. simpl. apply repr_list_as_inst. apply K.
-      * rewrite handles_inst, app_nil_r. apply incl_refl.
-      * apply repr_list_as_inst. auto.
+  2: { inversion E; subst. rewrite (repr_list_nth_none _ _ _ _ Hrs Ex). eexists; split; [reflexivity|]. split; auto. }
+  destruct (repr_list_nth _ _ _ _ _ Hrs Ex) as [tcur [Htc Hcur]]. rewrite Htc.
+  assert (I0 : Inv h (handles_list rs ++ [])) by (rewrite app_nil_r; auto).
+  destruct (m_read h cur p) as [h1 [old|]] eqn:ER.
+  2: { destruct (m_read_ok h cur tcur p (handles_list rs) [] h1 None I0) as [[Hg S1] K1]; auto.
+       { apply incl_appl. eapply handles_list_nth; eauto. }
+       inversion E; subst. rewrite Hg. eexists; split; [reflexivity|].
+       apply (KEEPST h1 []); auto. }
+  destruct (m_read_ok h cur tcur p (handles_list rs) [] h1 (Some old) I0) as [[told [Hg [Hold S1]]] K1]; auto.
+  { apply incl_appl. eapply handles_list_nth; eauto. }
+  rewrite Hg.
+  assert (Hrs1 : repr_list h1 rs sg).
+  { apply repr_list_as_inst. apply K1. rewrite handles_inst. apply incl_appl, incl_refl. apply repr_list_as_inst; auto. }
+  assert (I1 : Inv h1 (handles_list rs ++ handles old)).
+  { pose proof (st_inv _ _ _ _ _ S1) as I1. rewrite app_nil_r in I1. eapply Inv_equiv; [|exact I1]. occ_tac. }
+  destruct (m_eval rs h1 e) as [h2 [w|]] eqn:EE.
+  2: { destruct (m_eval_ok e FE rs h1 (handles old) sg h2 None I1 Hrs1 EE) as [[Ev S2] K2].
+       rewrite Ev. inversion E; subst; clear E.
+       assert (I2 : Inv h2 ((handles old ++ handles_list rs) ++ [])).
+       { rewrite app_nil_r. eapply Inv_equiv; [|apply S2]. occ_tac. }
+       destruct (drop_val_keep h2 old (handles_list rs) [] I2) as [S3 K3].
+       eexists; split; [reflexivity|]. split.
+       - unfold StInv. simpl. pose proof (st_inv _ _ _ _ _ S3) as I3. rewrite app_nil_r in I3. auto.
+       - unfold Sim. simpl. apply repr_list_as_inst. apply K3. rewrite handles_inst. apply incl_appl, incl_refl.
+         apply K2. rewrite handles_inst. apply incl_appl, incl_refl. apply repr_list_as_inst; auto. }
+  destruct (m_eval_ok e FE rs h1 (handles old) sg h2 (Some w) I1 Hrs1 EE) as [[tw [Ev [Hw S2]]] K2].
+  rewrite Ev.
+  assert (Hrs2 : repr_list h2 rs sg).
+  { apply repr_list_as_inst. apply K2. rewrite handles_inst. apply incl_appl, incl_refl. apply repr_list_as_inst; auto. }
+  assert (Hold2 : repr h2 old told).
+  { apply K2; auto. apply incl_appr, incl_refl. }
+  destruct (m_opassign p f h2 cur old w) as [[h3 cur'] ok1] eqn:EO. inversion E; subst; clear E.
+  set (others := handles_list (set_root rs x HNull)).
+  assert (I2 : Inv h2 ((handles cur ++ handles old ++ handles w) ++ others)).
+  { eapply Inv_equiv; [|apply S2]. intro l. pose proof (roots_split x rs cur Ex l). fold others in H. revert H. occ_tac. }
+  assert (Hcur2 : repr h2 cur tcur).
+  { destruct (repr_list_nth _ _ _ _ _ Hrs2 Ex) as [tc2 [Htc2 Hc2]]. rewrite Htc in Htc2. inversion Htc2; subst. auto. }
+  destruct (m_opassign_ok p f NS BF h2 cur tcur old told w tw others h3 cur' ok I2 Hcur2 Hold2 Hw Hg EO)
+    as [t' [Ev2 [Hr' S3]]].
+  rewrite Ev2. eexists; split; [reflexivity|].
+  assert (S3' : Step h2 (handles cur ++ handles old ++ handles w) (handles_list (set_root rs x HNull)) h3 ([] ++ handles cur')) by exact S3.
+  destruct (root_update h2 rs sg x cur h3 cur' t' _ [] Ex Hrs2 S3' Hr') as [I3 Hrs3].
+  split; auto.
 Qed.
 
+(* ------------------------------------------------------------------ the proved fragment and the refinement theorem *)
 Definition sfrag (s : sstmt) : bool :=
   match s with
   | SAssign x p e => noslice p && efrag e
-  | _ => false
+  | SOp x p f e => noslice p && bfrag f && efrag e
+  | SMod dst x m => is_modlop m && match dst with Some (_, q) => noslice q | None => true end
+  | SEvery _ _ _ | SSwap _ _ _ _ => false
   end.
 
 Lemma m_exec_s_ok s : sfrag s = true -> forall st sg st' ok,
@@ -1597,6 +2952,12 @@ Proof.
       * unfold StInv. simpl. pose proof (st_inv _ _ _ _ _ S) as I1. rewrite app_nil_r in I1. auto.
       * unfold Sim. simpl. apply repr_list_as_inst. apply K.
         rewrite handles_inst. apply incl_appl, incl_refl. apply repr_list_as_inst; auto.
+  - (* x[p] f= e *)
+    apply andb_prop in FR. destruct FR as [FR FE]. apply andb_prop in FR. destruct FR as [NS BF].
+    eapply exec_op_ok; eauto.
+  - (* [y[q] =] pop / remove / consume x[p] *)
+    apply andb_prop in FR. destruct FR as [HM HD].
+    eapply exec_mod_ok; eauto. destruct dst as [[y q]|]; auto.
 Qed.
 
 Definition frag (s : stmt) : bool := match s with Simple s => sfrag s | SFor _ _ _ => false end.
